@@ -86,13 +86,14 @@ Lemma subseq_filter f l : subseq (filter f l) l.
 Proof. induction l as [|x t IH]; simpl; [constructor|]. destruct (f x); constructor; exact IH. Qed.
 
 (* ------------------------------------------------------------------ alive *)
-Definition refs (s : st) (a : Z) : Prop := In a (reg s) \/ In a (ext s) \/ cur s = Some a.
+Definition refs (s : st) (a : Z) : Prop := In a (reg s) \/ In a (ext s) \/ In (Some a) (cur s).
 
-Lemma is_cur_spec s a : is_cur s a = true <-> cur s = Some a.
+Lemma is_cur_spec s a : is_cur s a = true <-> In (Some a) (cur s).
 Proof.
-  unfold is_cur. destruct (cur s) as [c|]; split; intros H; try discriminate.
-  - apply Z.eqb_eq in H. subst. reflexivity.
-  - inversion H. subst. apply Z.eqb_refl.
+  unfold is_cur. rewrite existsb_exists. split.
+  - intros [o [Ho Hh]]. destruct o as [c|]; simpl in Hh; [|discriminate].
+    apply Z.eqb_eq in Hh. subst. exact Ho.
+  - intros H. exists (Some a). split; [exact H|simpl; apply Z.eqb_refl].
 Qed.
 
 Lemma alive_spec s a : alive s a = true <-> refs s a.
@@ -109,89 +110,8 @@ Qed.
 Lemma alive_sweep s a : alive (sweep s) a = alive s a.
 Proof. reflexivity. Qed.
 
-Lemma alive_ext_irrel s s' :
-  reg s' = reg s -> ext s' = ext s -> cur s' = cur s -> forall a, alive s' a = alive s a.
-Proof. intros Hr He Hc a. unfold alive, is_cur. rewrite Hr, He, Hc. reflexivity. Qed.
-
-(* ------------------------------------------------------------------ Part A: the loop *)
-(* the state after the reference r has been inspected (and, if alive, its agent called) *)
-Definition visit1 (sc : script) (r : Z) (s : st) : st :=
-  if alive s r then run_acts r (script_of sc r) (sweep (set_cur (Some r) s))
-  else sweep (set_cur None s).
-
-Lemma visit_cons sc r rest s :
-  visit sc (r :: rest) s =
-  (fst (visit sc rest (visit1 sc r s)),
-   if alive s r then r :: snd (visit sc rest (visit1 sc r s)) else snd (visit sc rest (visit1 sc r s))).
-Proof.
-  simpl. unfold visit1. destruct (alive s r).
-  - destruct (visit sc rest _) as [s3 log]. reflexivity.
-  - destruct (visit sc rest _) as [s3 log]. reflexivity.
-Qed.
-
-Lemma visit_app sc o1 o2 s :
-  visit sc (o1 ++ o2) s =
-  (fst (visit sc o2 (fst (visit sc o1 s))),
-   snd (visit sc o1 s) ++ snd (visit sc o2 (fst (visit sc o1 s)))).
-Proof.
-  revert s. induction o1 as [|r t IH]; intros s.
-  - simpl. destruct (visit sc o2 s). reflexivity.
-  - rewrite <- app_comm_cons. rewrite !visit_cons. rewrite IH. simpl.
-    destruct (alive s r); reflexivity.
-Qed.
-
-Lemma visit_log_subseq sc order s : subseq (snd (visit sc order s)) order.
-Proof.
-  revert s. induction order as [|r t IH]; intros s.
-  - simpl. constructor.
-  - rewrite visit_cons. simpl. destruct (alive s r); constructor; apply IH.
-Qed.
-
-Lemma visit_log_NoDup sc order s : NoDup order -> NoDup (snd (visit sc order s)).
-Proof. intros H. eapply subseq_NoDup; [apply visit_log_subseq|exact H]. Qed.
-
-(* the state in which the reference of agent a is inspected *)
-Fixpoint turn_state (sc : script) (order : list Z) (s : st) (a : Z) : option st :=
-  match order with
-  | [] => None
-  | r :: rest => if r =? a then Some s else turn_state sc rest (visit1 sc r s) a
-  end.
-
-Lemma turn_state_some sc order s a : In a order -> exists s1, turn_state sc order s a = Some s1.
-Proof.
-  revert s. induction order as [|r t IH]; intros s; simpl; [tauto|].
-  intros [H|H].
-  - subst. rewrite Z.eqb_refl. eexists. reflexivity.
-  - destruct (r =? a); [eexists; reflexivity|apply IH; exact H].
-Qed.
-
-Lemma visit_exact sc order s a :
-  NoDup order ->
-  (In a (snd (visit sc order s)) <->
-   exists s1, turn_state sc order s a = Some s1 /\ alive s1 a = true).
-Proof.
-  revert s. induction order as [|r t IH]; intros s Hn.
-  - simpl. split; [tauto|]. intros [s1 [H _]]. discriminate.
-  - inversion Hn as [|? ? Hnotin Hn']; subst. rewrite visit_cons. cbn [snd turn_state].
-    destruct (r =? a) eqn:E.
-    + apply Z.eqb_eq in E. subst r. split.
-      * intros H. exists s. split; [reflexivity|].
-        destruct (alive s a) eqn:Ea; [reflexivity|]. exfalso. apply Hnotin.
-        eapply subseq_In; [apply visit_log_subseq|exact H].
-      * intros [s1 [H1 H2]]. inversion H1; subst s1. rewrite H2. left. reflexivity.
-    + apply Z.eqb_neq in E. rewrite <- IH by exact Hn'.
-      destruct (alive s r); simpl; [|tauto]. split; [intros [H|H]; [congruence|exact H]|tauto].
-Qed.
-
-(* a member still registered when its turn comes is called *)
-Lemma visit_registered_called sc pre a post s :
-  In a (reg (fst (visit sc pre s))) -> In a (snd (visit sc (pre ++ a :: post) s)).
-Proof.
-  intros H. rewrite visit_app. cbn [snd]. apply in_or_app. right. rewrite visit_cons. cbn [snd].
-  assert (alive (fst (visit sc pre s)) a = true) as ->.
-  { apply alive_spec. left. exact H. }
-  left. reflexivity.
-Qed.
+Lemma in_tl {A} (x : A) l : In x (tl l) -> In x l.
+Proof. destruct l; simpl; tauto. Qed.
 
 (* ------------------------------------------------------------------ Part B: how states evolve *)
 Lemma lookup_upd g r l : lookup r (upd_sets g l) = option_map (g r) (lookup r l).
@@ -272,7 +192,8 @@ Proof.
   intros a Ha. apply alive_spec in Ha. destruct Ha as [H|[H|H]].
   - apply alive_spec. left. exact H.
   - apply alive_spec. right. left. exact H.
-  - simpl in H. inversion H. subst. exact Hr.
+  - simpl in H. destruct H as [H|H]; [inversion H; subst; exact Hr|].
+    apply alive_spec. right. right. apply in_tl. exact H.
 Qed.
 
 Lemma evolves_set_cur_none s : evolves s (set_cur None s).
@@ -281,7 +202,26 @@ Proof.
   intros a Ha. apply alive_spec in Ha. destruct Ha as [H|[H|H]].
   - apply alive_spec. left. exact H.
   - apply alive_spec. right. left. exact H.
-  - simpl in H. discriminate.
+  - simpl in H. destruct H as [H|H]; [discriminate|].
+    apply alive_spec. right. right. apply in_tl. exact H.
+Qed.
+
+Lemma evolves_push s : evolves s (push_frame s).
+Proof.
+  apply evolves_same_sets; try reflexivity.
+  intros a Ha. apply alive_spec in Ha. destruct Ha as [H|[H|H]].
+  - apply alive_spec. left. exact H.
+  - apply alive_spec. right. left. exact H.
+  - simpl in H. destruct H as [H|H]; [discriminate|]. apply alive_spec. right. right. exact H.
+Qed.
+
+Lemma evolves_pop s : evolves s (pop_frame s).
+Proof.
+  apply evolves_same_sets; try reflexivity.
+  intros a Ha. apply alive_spec in Ha. destruct Ha as [H|[H|H]].
+  - apply alive_spec. left. exact H.
+  - apply alive_spec. right. left. exact H.
+  - simpl in H. apply alive_spec. right. right. apply in_tl. exact H.
 Qed.
 
 Lemma evolves_add_ext s i : alive s i = true -> evolves s (set_ext (ext s ++ [i]) s).
@@ -392,49 +332,8 @@ Proof.
   - apply evolves_create_n.
   - eapply evolves_trans; [apply evolves_drop_ext|apply evolves_sweep].
   - destruct (alive s i) eqn:E; [apply evolves_add_ext; exact E|apply evolves_refl].
-Qed.
-
-Lemma evolves_run_acts self l s : evolves s (run_acts self l s).
-Proof.
-  revert s. induction l as [|a t IH]; intros s; simpl; [apply evolves_refl|].
-  eapply evolves_trans; [apply evolves_exec_act|apply IH].
-Qed.
-
-Lemma evolves_visit1 sc r s : evolves s (visit1 sc r s).
-Proof.
-  unfold visit1. destruct (alive s r) eqn:E.
-  - eapply evolves_trans; [apply evolves_set_cur_some; exact E|].
-    eapply evolves_trans; [apply evolves_sweep|apply evolves_run_acts].
-  - eapply evolves_trans; [apply evolves_set_cur_none|apply evolves_sweep].
-Qed.
-
-Lemma evolves_visit sc order s : evolves s (fst (visit sc order s)).
-Proof.
-  revert s. induction order as [|r t IH]; intros s; [apply evolves_refl|].
-  rewrite visit_cons. cbn [fst]. eapply evolves_trans; [apply evolves_visit1|apply IH].
-Qed.
-
-(* death is final: a dead agent (its id already handed out) is never called again *)
-Lemma dead_never_called sc order s a :
-  alive s a = false -> a < next_id s -> ~ In a (snd (visit sc order s)).
-Proof.
-  revert s. induction order as [|r t IH]; intros s Hd Hb; [simpl; tauto|].
-  rewrite visit_cons. cbn [snd].
-  pose proof (evolves_visit1 sc r s) as (N & D & _ & _).
-  assert (alive (visit1 sc r s) a = false) as Hd'.
-  { destruct (alive (visit1 sc r s) a) eqn:E; [|reflexivity]. rewrite (D a Hb E) in Hd. discriminate. }
-  assert (~ In a (snd (visit sc t (visit1 sc r s)))) as Hrest by (apply IH; [exact Hd'|lia]).
-  destruct (alive s r) eqn:Er; [|exact Hrest].
-  intros [H|H]; [subst; congruence|exact (Hrest H)].
-Qed.
-
-Lemma evolves_activate k perm sc snap s s' log :
-  activate k perm sc snap s = Some (s', log) -> evolves s s'.
-Proof.
-  unfold activate. destruct (visit_order k perm snap) as [order|]; [|discriminate].
-  destruct (visit sc order s) as [s1 l] eqn:E. intros H. inversion H; subst.
-  pose proof (evolves_visit sc order s) as Hv. rewrite E in Hv. cbn [fst] in Hv.
-  eapply evolves_trans; [exact Hv|]. eapply evolves_trans; [apply evolves_set_cur_none|apply evolves_sweep].
+  - apply evolves_refl.
+  - apply evolves_refl.
 Qed.
 
 (* ------------------------------------------------------------------ Part C: the invariant *)
@@ -478,7 +377,8 @@ Proof.
   intros a [H|[H|H]].
   - apply (wf_bound s a W). apply alive_spec. left. exact H.
   - apply (wf_bound s a W). apply alive_spec. right. left. exact H.
-  - simpl in H. inversion H; subst. apply (wf_bound s a W Hr).
+  - simpl in H. destruct H as [H|H]; [inversion H; subst; apply (wf_bound s a W Hr)|].
+    apply (wf_bound s a W). apply alive_spec. right. right. apply in_tl. exact H.
 Qed.
 
 Lemma wf_set_cur_none s : Wf s -> Wf (set_cur None s).
@@ -487,7 +387,26 @@ Proof.
   intros a [H|[H|H]].
   - apply (wf_bound s a W). apply alive_spec. left. exact H.
   - apply (wf_bound s a W). apply alive_spec. right. left. exact H.
-  - simpl in H. discriminate.
+  - simpl in H. destruct H as [H|H]; [discriminate|].
+    apply (wf_bound s a W). apply alive_spec. right. right. apply in_tl. exact H.
+Qed.
+
+Lemma wf_push s : Wf s -> Wf (push_frame s).
+Proof.
+  intros W. eapply wf_same_sets; try exact W; try reflexivity.
+  intros a [H|[H|H]].
+  - apply (wf_bound s a W). apply alive_spec. left. exact H.
+  - apply (wf_bound s a W). apply alive_spec. right. left. exact H.
+  - simpl in H. destruct H as [H|H]; [discriminate|]. apply (wf_bound s a W). apply alive_spec. right. right. exact H.
+Qed.
+
+Lemma wf_pop s : Wf s -> Wf (pop_frame s).
+Proof.
+  intros W. eapply wf_same_sets; try exact W; try reflexivity.
+  intros a [H|[H|H]].
+  - apply (wf_bound s a W). apply alive_spec. left. exact H.
+  - apply (wf_bound s a W). apply alive_spec. right. left. exact H.
+  - simpl in H. apply (wf_bound s a W). apply alive_spec. right. right. apply in_tl. exact H.
 Qed.
 
 Lemma wf_add_ext s i : Wf s -> i < next_id s -> Wf (set_ext (ext s ++ [i]) s).
@@ -645,481 +564,10 @@ Proof.
     + eapply live_same_sets; [exact L|reflexivity|].
       intros a Ha. apply alive_spec in Ha. apply alive_spec. unfold refs in *. cbn [reg ext cur set_ext].
       destruct Ha as [H|[H|H]]; [left; exact H|right; left; apply in_or_app; left; exact H|right; right; exact H].
-Qed.
-
-Lemma inv_run_acts self l s : Inv s -> Inv (run_acts self l s).
-Proof.
-  revert s. induction l as [|a t IH]; intros s I; simpl; [exact I|]. apply IH. apply inv_exec_act. exact I.
-Qed.
-
-Lemma inv_visit1 sc r s : Inv s -> Inv (visit1 sc r s).
-Proof.
-  intros [W L]. unfold visit1. destruct (alive s r) eqn:E.
-  - apply inv_run_acts. split; [apply wf_sweep; apply wf_set_cur_some; assumption|apply live_sweep].
-  - split; [apply wf_sweep; apply wf_set_cur_none; assumption|apply live_sweep].
-Qed.
-
-Lemma inv_visit sc order s : Inv s -> Inv (fst (visit sc order s)).
-Proof.
-  revert s. induction order as [|r t IH]; intros s I; [exact I|].
-  rewrite visit_cons. cbn [fst]. apply IH. apply inv_visit1. exact I.
-Qed.
-
-Lemma inv_activate k perm sc snap s s' log :
-  Inv s -> activate k perm sc snap s = Some (s', log) -> Inv s'.
-Proof.
-  intros I. unfold activate. destruct (visit_order k perm snap) as [order|]; [|discriminate].
-  destruct (visit sc order s) as [s1 l] eqn:E. intros H. inversion H; subst.
-  pose proof (inv_visit sc order s I) as Iv. rewrite E in Iv. cbn [fst] in Iv. destruct Iv as [W L].
-  split; [apply wf_sweep; apply wf_set_cur_none; exact W|apply live_sweep].
-Qed.
-
-Lemma inv_visit_groups k sc gs : forall perms s s' logs,
-  Inv s -> visit_groups k sc gs perms s = Some (s', logs) -> Inv s'.
-Proof.
-  induction gs as [|[key g] gs IH]; intros perms s s' logs I; simpl.
-  - intros H. inversion H; subst. exact I.
-  - destruct (activate k (hd [] perms) sc (filter (alive s) g) s) as [[s1 log1]|] eqn:E; [|discriminate].
-    destruct (visit_groups k sc gs (tl perms) s1) as [[s2 logs2]|] eqn:E2; [|discriminate].
-    intros H. inversion H; subst. eapply IH; [|exact E2]. eapply inv_activate; eassumption.
-Qed.
-
-Lemma inv_init : Inv init_st.
-Proof.
-  split; [unfold Wf; repeat split|].
-  - constructor.
-  - intros a [H|[H|H]]; simpl in H; [tauto|tauto|discriminate].
-  - simpl in H. destruct (sref_eqb r SAll); inversion H. constructor.
-  - simpl in H. destruct (sref_eqb r SAll); inversion H. intros a [].
-  - intros r m H a Ha. simpl in H. destruct (sref_eqb r SAll); inversion H. subst. destruct Ha.
-Qed.
-
-Lemma inv_step s o : Inv s -> Inv (fst (step s o)).
-Proof.
-  intros I. destruct o; simpl.
-  - apply inv_exec_act. exact I.
-  - destruct I as [(W1 & W2 & W3 & W4) L].
-    assert (forall a, In a (dedup_first Z.eqb (filter (alive s) ids)) -> alive s a = true) as Hal.
-    { intros a Ha. apply (proj1 (dedup_first_In Z.eqb Z.eqb_eq _ _)) in Ha. apply filter_In in Ha. apply Ha. }
-    split; [unfold Wf; cbn [reg next_id sets]; repeat split|].
-    + exact W1.
-    + exact W2.
-    + rewrite lookup_app in H. destruct (lookup r (sets s)) as [m0|] eqn:E0.
-      * inversion H; subst. apply (W3 r m E0).
-      * destruct (sref_eqb r (SUser (nuser s))); inversion H. apply (dedup_first_NoDup Z.eqb Z.eqb_eq).
-    + rewrite lookup_app in H. destruct (lookup r (sets s)) as [m0|] eqn:E0.
-      * inversion H; subst. apply (W3 r m E0).
-      * destruct (sref_eqb r (SUser (nuser s))); inversion H. subst. intros a Ha.
-        apply W2. apply alive_spec. apply Hal. exact Ha.
-    + rewrite lookup_app, W4. reflexivity.
-    + intros r m H a Ha. cbn [sets] in H. rewrite lookup_app in H.
-      change (alive s a = true).
-      destruct (lookup r (sets s)) as [m0|] eqn:E0.
-      * inversion H; subst. exact (L r m E0 a Ha).
-      * destruct (sref_eqb r (SUser (nuser s))); inversion H. subst. apply Hal. exact Ha.
   - exact I.
-  - destruct (lookup s0 (sets s)) as [snap|]; [|exact I].
-    destruct (activate k perm sc snap s) as [[s' log]|] eqn:E; [|exact I].
-    cbn [fst]. eapply inv_activate; eassumption.
-  - destruct (lookup s0 (sets s)) as [members|]; [|exact I].
-    destruct (m <=? 0); [exact I|].
-    destruct (visit_groups k sc (groups_of m members) perms s) as [[s' logs]|] eqn:E; [|exact I].
-    cbn [fst]. eapply inv_visit_groups; eassumption.
+  - exact I.
 Qed.
 
-(* the state reached by a history *)
-Fixpoint state_after (s : st) (ops : list op) : st :=
-  match ops with
-  | [] => s
-  | o :: t => state_after (fst (step s o)) t
-  end.
-
-Lemma inv_state_after ops : forall s, Inv s -> Inv (state_after s ops).
-Proof.
-  induction ops as [|o t IH]; intros s I; simpl; [exact I|]. apply IH. apply inv_step. exact I.
-Qed.
-
-Lemma inv_reachable ops : Inv (state_after init_st ops).
-Proof. apply inv_state_after. apply inv_init. Qed.
-
-(* run_ops really is the observation stream of state_after *)
-Lemma run_ops_app s ops o :
-  run_ops s (ops ++ [o]) = run_ops s ops ++ [snd (step (state_after s ops) o)].
-Proof.
-  revert s. induction ops as [|x t IH]; intros s; simpl.
-  - destruct (step s o). reflexivity.
-  - destruct (step s x) as [s' ob] eqn:E. cbn [fst]. rewrite IH. reflexivity.
-Qed.
-
-(* ------------------------------------------------------------------ Part D: one activation *)
-Lemma zlist_eqb_eq a : forall b, zlist_eqb a b = true -> a = b.
-Proof.
-  induction a as [|x a IH]; intros [|y b]; simpl; intros H; try discriminate; [reflexivity|].
-  apply andb_true_iff in H. destruct H as [H1 H2]. apply Z.eqb_eq in H1. subst. f_equal. apply IH. exact H2.
-Qed.
-
-Lemma is_perm_Permutation p l : is_perm p l = true -> Permutation p l.
-Proof.
-  unfold is_perm. intros H. apply zlist_eqb_eq in H.
-  eapply Permutation_trans; [apply zsort_perm|]. rewrite H. apply Permutation_sym. apply zsort_perm.
-Qed.
-
-Lemma visit_order_spec k perm snap order :
-  visit_order k perm snap = Some order ->
-  Permutation order snap /\ (k <> KShuffleDo -> order = snap) /\ (k = KShuffleDo -> order = perm).
-Proof.
-  destruct k; simpl.
-  - intros H. inversion H. subst. repeat split; auto. discriminate.
-  - destruct (is_perm perm snap) eqn:E; [|discriminate]. intros H. inversion H. subst.
-    repeat split; auto; [apply is_perm_Permutation; exact E|congruence].
-  - intros H. inversion H. subst. repeat split; auto. discriminate.
-Qed.
-
-Lemma activate_spec k perm sc snap s s' log :
-  activate k perm sc snap s = Some (s', log) ->
-  exists order, visit_order k perm snap = Some order /\
-                log = snd (visit sc order s) /\
-                s' = sweep (set_cur None (fst (visit sc order s))).
-Proof.
-  unfold activate. destruct (visit_order k perm snap) as [order|]; [|discriminate].
-  destruct (visit sc order s) as [s1 l] eqn:E. intros H. inversion H; subst.
-  exists order. rewrite E. repeat split; reflexivity.
-Qed.
-
-Lemma activate_once k perm sc snap s s' log :
-  NoDup snap -> activate k perm sc snap s = Some (s', log) -> NoDup log.
-Proof.
-  intros Hn H. apply activate_spec in H. destruct H as (order & Ho & -> & _).
-  apply visit_log_NoDup. apply visit_order_spec in Ho. destruct Ho as (P & _).
-  eapply Permutation_NoDup; [apply Permutation_sym; exact P|exact Hn].
-Qed.
-
-Lemma activate_order k perm sc snap s s' log :
-  activate k perm sc snap s = Some (s', log) ->
-  match k with
-  | KShuffleDo => subseq log perm /\ Permutation perm snap
-  | _ => subseq log snap
-  end.
-Proof.
-  intros H. apply activate_spec in H. destruct H as (order & Ho & -> & _).
-  pose proof (visit_log_subseq sc order s) as Hs.
-  apply visit_order_spec in Ho. destruct Ho as (P & H1 & H2).
-  destruct k.
-  - rewrite <- H1 by discriminate. exact Hs.
-  - rewrite <- H2 by reflexivity. split; [exact Hs|exact P].
-  - rewrite <- H1 by discriminate. exact Hs.
-Qed.
-
-Lemma activate_members_only k perm sc snap s s' log :
-  activate k perm sc snap s = Some (s', log) -> forall a, In a log -> In a snap.
-Proof.
-  intros H a Ha. apply activate_spec in H. destruct H as (order & Ho & -> & _).
-  apply visit_order_spec in Ho. destruct Ho as (P & _).
-  eapply Permutation_in; [exact P|]. eapply subseq_In; [apply visit_log_subseq|exact Ha].
-Qed.
-
-Lemma activate_exact k perm sc snap s s' log order :
-  NoDup snap -> activate k perm sc snap s = Some (s', log) -> visit_order k perm snap = Some order ->
-  forall a, In a log <-> exists s1, turn_state sc order s a = Some s1 /\ alive s1 a = true.
-Proof.
-  intros Hn H Ho a. apply activate_spec in H. destruct H as (order' & Ho' & -> & _).
-  rewrite Ho in Ho'. inversion Ho'; subst order'. apply visit_exact.
-  apply visit_order_spec in Ho. destruct Ho as (P & _).
-  eapply Permutation_NoDup; [apply Permutation_sym; exact P|exact Hn].
-Qed.
-
-(* agents registered during the call have fresh ids; members of the snapshot have old ones *)
-Lemma activate_no_new k perm sc snap s s' log :
-  (forall a, In a snap -> a < next_id s) ->
-  activate k perm sc snap s = Some (s', log) ->
-  (forall a, In a log -> a < next_id s) /\
-  (forall a, In a (reg s') -> ~ In a (reg s) -> next_id s <= a /\ ~ In a log).
-Proof.
-  intros Hb H. split.
-  - intros a Ha. apply Hb. eapply activate_members_only; eassumption.
-  - intros a Ha Hn. pose proof (evolves_activate _ _ _ _ _ _ _ H) as (_ & _ & R & _).
-    destruct (R a Ha) as [Hr|Hr]; [tauto|]. split; [lia|].
-    intros Hl. assert (a < next_id s) by (apply Hb; eapply activate_members_only; eassumption). lia.
-Qed.
-
-(* ------------------------------------------------------------------ Part E: scripts that spare an agent *)
-Definition removes (self : Z) (x : act) (a : Z) : bool :=
-  match x with
-  | RemoveSelf _ => self =? a
-  | RemoveId i _ => i =? a
-  | _ => false
-  end.
-
-(* nobody's turn contains a removal of a *)
-Definition spares (sc : script) (a : Z) : Prop :=
-  forall r x, In x (script_of sc r) -> removes r x a = false.
-
-Lemma reg_sweep s : reg (sweep s) = reg s.
-Proof. reflexivity. Qed.
-
-Lemma reg_kept_do_remove i keep s a : In a (reg s) -> i <> a -> In a (reg (do_remove i keep s)).
-Proof.
-  intros Ha Hi. unfold do_remove. destruct (alive s i); [|exact Ha].
-  rewrite reg_sweep.
-  assert (In a (reg (deregister i s))) as Hd.
-  { unfold deregister. destruct (memz i (reg s)); [|exact Ha]. cbn [reg]. apply remove_z_In. split; [exact Ha|congruence]. }
-  destruct keep; exact Hd.
-Qed.
-
-Lemma reg_kept_create_n n c keep s a : In a (reg s) -> In a (reg (create_n n c keep s)).
-Proof.
-  revert s. induction n as [|n IH]; intros s H; simpl; [exact H|].
-  apply IH. cbn [reg create1]. apply in_or_app. left. exact H.
-Qed.
-
-Lemma reg_kept_act self s x a : In a (reg s) -> removes self x a = false -> In a (reg (exec_act self s x)).
-Proof.
-  intros Ha Hr. destruct x; simpl in *.
-  - exact Ha.
-  - apply reg_kept_do_remove; [exact Ha|]. apply Z.eqb_neq. exact Hr.
-  - apply reg_kept_do_remove; [exact Ha|]. apply Z.eqb_neq. exact Hr.
-  - apply reg_kept_create_n. exact Ha.
-  - exact Ha.
-  - destruct (alive s i); exact Ha.
-Qed.
-
-Lemma reg_kept_run_acts self l s a :
-  In a (reg s) -> (forall x, In x l -> removes self x a = false) -> In a (reg (run_acts self l s)).
-Proof.
-  revert s. induction l as [|x t IH]; intros s Ha Hl; simpl; [exact Ha|].
-  apply IH; [apply reg_kept_act; [exact Ha|apply Hl; left; reflexivity]|].
-  intros y Hy. apply Hl. right. exact Hy.
-Qed.
-
-Lemma reg_kept_visit1 sc r s a : In a (reg s) -> spares sc a -> In a (reg (visit1 sc r s)).
-Proof.
-  intros Ha Hs. unfold visit1. destruct (alive s r); [|exact Ha].
-  apply reg_kept_run_acts; [exact Ha|]. intros x Hx. apply (Hs r x Hx).
-Qed.
-
-Lemma reg_kept_visit sc order s a : In a (reg s) -> spares sc a -> In a (reg (fst (visit sc order s))).
-Proof.
-  revert s. induction order as [|r t IH]; intros s Ha Hs; [exact Ha|].
-  rewrite visit_cons. cbn [fst]. apply IH; [apply reg_kept_visit1; assumption|exact Hs].
-Qed.
-
-Lemma unremoved_called sc order s a :
-  In a (reg s) -> spares sc a -> In a order -> In a (snd (visit sc order s)).
-Proof.
-  intros Ha Hs Hin. apply in_split in Hin. destruct Hin as (pre & post & ->).
-  apply visit_registered_called. apply reg_kept_visit; assumption.
-Qed.
-
-(* no removal anywhere in the script: the log is the whole visiting order *)
-Lemma no_removal_all_called sc order : forall s,
-  (forall a, spares sc a) -> (forall a, In a order -> In a (reg s)) -> snd (visit sc order s) = order.
-Proof.
-  induction order as [|r t IH]; intros s Hs Hr; [reflexivity|].
-  rewrite visit_cons. cbn [snd].
-  assert (alive s r = true) as -> by (apply alive_spec; left; apply Hr; left; reflexivity).
-  f_equal. apply IH; [exact Hs|]. intros a Ha. apply reg_kept_visit1; [|apply Hs]. apply Hr. right. exact Ha.
-Qed.
-
-(* ------------------------------------------------------------------ Part F: statements over all histories *)
-Definition reached (ops : list op) : st := state_after init_st ops.
-
-Lemma reached_set ops r snap :
-  lookup r (sets (reached ops)) = Some snap ->
-  NoDup snap /\ forall a, In a snap -> alive (reached ops) a = true /\ a < next_id (reached ops).
-Proof.
-  intros H. destruct (inv_reachable ops) as [(W1 & W2 & W3 & W4) L]. fold (reached ops) in *.
-  destruct (W3 r snap H) as [Hn Hb]. split; [exact Hn|]. intros a Ha. split; [exact (L r snap H a Ha)|exact (Hb a Ha)].
-Qed.
-
-Lemma reached_all_is_reg ops : lookup SAll (sets (reached ops)) = Some (reg (reached ops)).
-Proof. destruct (inv_reachable ops) as [(_ & _ & _ & W4) _]. exact W4. Qed.
-
-Lemma reached_once ops k r perm sc snap s' log :
-  lookup r (sets (reached ops)) = Some snap ->
-  activate k perm sc snap (reached ops) = Some (s', log) -> NoDup log.
-Proof. intros H. apply activate_once. apply (reached_set ops r snap H). Qed.
-
-Lemma reached_exact ops k r perm sc snap s' log order :
-  lookup r (sets (reached ops)) = Some snap ->
-  activate k perm sc snap (reached ops) = Some (s', log) -> visit_order k perm snap = Some order ->
-  forall a, In a log <->
-            exists s1, turn_state sc order (reached ops) a = Some s1 /\ alive s1 a = true.
-Proof. intros H. apply activate_exact. apply (reached_set ops r snap H). Qed.
-
-Lemma reached_no_new ops k r perm sc snap s' log :
-  lookup r (sets (reached ops)) = Some snap ->
-  activate k perm sc snap (reached ops) = Some (s', log) ->
-  (forall a, In a log -> In a snap /\ a < next_id (reached ops)) /\
-  (forall a, In a (reg s') -> ~ In a (reg (reached ops)) -> next_id (reached ops) <= a /\ ~ In a log).
-Proof.
-  intros H Ha. destruct (reached_set ops r snap H) as [_ Hb].
-  destruct (activate_no_new k perm sc snap _ s' log (fun a Hin => proj2 (Hb a Hin)) Ha) as [H1 H2].
-  split; [|exact H2]. intros a Hin. split; [eapply activate_members_only; eassumption|apply H1; exact Hin].
-Qed.
-
-Lemma reached_unremoved_called ops k r perm sc snap s' log a :
-  lookup r (sets (reached ops)) = Some snap ->
-  activate k perm sc snap (reached ops) = Some (s', log) ->
-  In a snap -> In a (reg (reached ops)) -> spares sc a -> In a log.
-Proof.
-  intros H Hact Hin Hreg Hsp. apply activate_spec in Hact. destruct Hact as (order & Ho & -> & _).
-  apply unremoved_called; [exact Hreg|exact Hsp|].
-  apply visit_order_spec in Ho. destruct Ho as (P & _).
-  eapply Permutation_in; [apply Permutation_sym; exact P|exact Hin].
-Qed.
-
-(* activating model.agents with callbacks that remove nobody calls everybody, in visiting order *)
-Lemma reached_all_called ops k perm sc s' log order :
-  activate k perm sc (reg (reached ops)) (reached ops) = Some (s', log) ->
-  visit_order k perm (reg (reached ops)) = Some order ->
-  (forall a, spares sc a) -> log = order.
-Proof.
-  intros Hact Ho Hsp. apply activate_spec in Hact. destruct Hact as (order' & Ho' & -> & _).
-  rewrite Ho in Ho'. inversion Ho'; subst order'.
-  apply no_removal_all_called; [exact Hsp|].
-  apply visit_order_spec in Ho. destruct Ho as (P & _). intros a Ha. eapply Permutation_in; [exact P|exact Ha].
-Qed.
-
-Lemma activate_sets_keep_order k perm sc snap s s' log :
-  activate k perm sc snap s = Some (s', log) ->
-  forall r m, lookup r (sets s) = Some m ->
-    exists keep new, lookup r (sets s') = Some (filter keep m ++ new) /\
-                     forall a, In a new -> next_id s <= a < next_id s'.
-Proof. intros H. pose proof (evolves_activate _ _ _ _ _ _ _ H) as (_ & _ & _ & S). exact S. Qed.
-
-Lemma dead_after_prefix_never_called sc pre post s a :
-  alive (fst (visit sc pre s)) a = false -> a < next_id (fst (visit sc pre s)) ->
-  snd (visit sc (pre ++ post) s) = snd (visit sc pre s) ++ snd (visit sc post (fst (visit sc pre s))) /\
-  ~ In a (snd (visit sc post (fst (visit sc pre s)))).
-Proof.
-  intros Hd Hb. split; [rewrite visit_app; reflexivity|apply dead_never_called; assumption].
-Qed.
-
-Lemma obs_log_cons args a log : obs_log args (a :: log) = a :: args ++ obs_log args log.
-Proof. reflexivity. Qed.
-
-Lemma obs_log_calls args log : length (obs_log args log) = (length log * S (length args))%nat.
-Proof.
-  induction log as [|a t IH]; [reflexivity|]. rewrite obs_log_cons. cbn [length]. rewrite app_length, IH. lia.
-Qed.
-
-(* ------------------------------------------------------------------ Part G: GroupBy.do / map *)
-Lemma NoDup_app_intro (l1 l2 : list Z) :
-  NoDup l1 -> NoDup l2 -> (forall x, In x l1 -> ~ In x l2) -> NoDup (l1 ++ l2).
-Proof.
-  induction l1 as [|x t IH]; simpl; intros H1 H2 Hd; [exact H2|].
-  inversion H1; subst. constructor.
-  - intros H. apply in_app_or in H. destruct H as [H|H]; [tauto|]. apply (Hd x); [left; reflexivity|exact H].
-  - apply IH; [assumption|assumption|]. intros y Hy. apply Hd. right. exact Hy.
-Qed.
-
-Lemma subseq_trans l1 l2 l3 : subseq l1 l2 -> subseq l2 l3 -> subseq l1 l3.
-Proof.
-  intros H12 H23. revert l1 H12. induction H23; intros l1 H12.
-  - exact H12.
-  - inversion H12; subst; [constructor; apply IHsubseq; assumption|apply sub_skip; apply IHsubseq; assumption].
-  - apply sub_skip. apply IHsubseq. exact H12.
-Qed.
-
-(* each group's log: duplicate-free, made of that group's members; in group order for do/map *)
-Definition group_log_ok (k : akind) (g l : list Z) : Prop :=
-  NoDup l /\ (forall a, In a l -> In a g) /\ (k <> KShuffleDo -> subseq l g).
-
-Lemma visit_groups_spec k sc gs : forall perms s s' logs,
-  (forall key g, In (key, g) gs -> NoDup g) ->
-  visit_groups k sc gs perms s = Some (s', logs) ->
-  map fst logs = map fst gs /\
-  Forall2 (fun kl kg => group_log_ok k (snd kg) (snd kl)) logs gs.
-Proof.
-  induction gs as [|[key g] gs IH]; intros perms s s' logs Hn; simpl.
-  - intros H. inversion H; subst. split; [reflexivity|constructor].
-  - destruct (activate k (hd [] perms) sc (filter (alive s) g) s) as [[s1 log1]|] eqn:E; [|discriminate].
-    destruct (visit_groups k sc gs (tl perms) s1) as [[s2 logs2]|] eqn:E2; [|discriminate].
-    intros H. inversion H; subst.
-    destruct (IH (tl perms) s1 s' logs2) as [Hk Hf]; [intros k0 g0 H0; apply (Hn k0 g0); right; exact H0|exact E2|].
-    split; [simpl; f_equal; exact Hk|]. constructor; [|exact Hf].
-    cbn [snd]. assert (NoDup g) as Hg by (apply (Hn key g); left; reflexivity).
-    repeat split.
-    + eapply activate_once; [|exact E]. apply NoDup_filter. exact Hg.
-    + intros a Ha. pose proof (activate_members_only _ _ _ _ _ _ _ E a Ha) as Hin.
-      apply filter_In in Hin. apply Hin.
-    + intros Hk'. pose proof (activate_order _ _ _ _ _ _ _ E) as Ho.
-      eapply subseq_trans; [|apply subseq_filter].
-      destruct k; [exact Ho|congruence|exact Ho].
-Qed.
-
-Lemma groups_of_keys m l : map fst (groups_of m l) = group_keys m l.
-Proof. unfold groups_of. rewrite map_map. simpl. apply map_id. Qed.
-
-Lemma groups_of_spec m l key g :
-  In (key, g) (groups_of m l) -> g = filter (fun a => gkey m a =? key) l.
-Proof.
-  unfold groups_of. rewrite in_map_iff. intros (k0 & H & _). inversion H; subst. reflexivity.
-Qed.
-
-Lemma nodup_flat_logs m (logs : list (Z * list Z)) :
-  NoDup (map fst logs) ->
-  (forall key l, In (key, l) logs -> NoDup l /\ forall a, In a l -> gkey m a = key) ->
-  NoDup (flat_map snd logs).
-Proof.
-  induction logs as [|[key l] t IH]; simpl; intros Hk Hl; [constructor|].
-  inversion Hk; subst. apply NoDup_app_intro.
-  - apply (Hl key l). left. reflexivity.
-  - apply IH; [assumption|]. intros k0 l0 H0. apply Hl. right. exact H0.
-  - intros x Hx Hin. apply in_flat_map in Hin. destruct Hin as ([k0 l0] & H0 & Hx0). simpl in Hx0.
-    assert (gkey m x = key) as E1 by (apply (Hl key l); [left; reflexivity|exact Hx]).
-    assert (gkey m x = k0) as E2 by (apply (Hl k0 l0); [right; exact H0|exact Hx0]).
-    apply H1. rewrite in_map_iff. exists (k0, l0). split; [simpl; congruence|exact H0].
-Qed.
-
-Lemma Forall2_In_l {A B} (R : A -> B -> Prop) la lb x :
-  Forall2 R la lb -> In x la -> exists y, In y lb /\ R x y.
-Proof.
-  induction 1; simpl; intros Hx; [tauto|]. destruct Hx as [Hx|Hx].
-  - subst. eexists. split; [left; reflexivity|assumption].
-  - destruct (IHForall2 Hx) as (y0 & Hy & Hr). exists y0. split; [right; exact Hy|exact Hr].
-Qed.
-
-Lemma Forall2_keys_eq (R : list Z -> list Z -> Prop) (logs gs : list (Z * list Z)) :
-  Forall2 (fun kl kg => R (snd kg) (snd kl)) logs gs -> map fst logs = map fst gs -> NoDup (map fst gs) ->
-  forall key l, In (key, l) logs -> exists g, In (key, g) gs /\ R g l.
-Proof.
-  induction 1 as [|[k1 l1] [k2 g2] logs gs HR HF IH]; simpl; intros Hk Hn key l Hin; [tauto|].
-  inversion Hk as [[Hk1 Hk2]]. inversion Hn as [|? ? Hn1 Hn2]; subst. destruct Hin as [Hin|Hin].
-  - inversion Hin; subst. exists g2. split; [left; reflexivity|exact HR].
-  - destruct (IH Hk2 Hn2 key l Hin) as (g & Hg & Hr). exists g. split; [right; exact Hg|exact Hr].
-Qed.
-
-Lemma reached_groupby_once ops k r m perms sc members s' logs :
-  lookup r (sets (reached ops)) = Some members ->
-  visit_groups k sc (groups_of m members) perms (reached ops) = Some (s', logs) ->
-  map fst logs = group_keys m members /\ NoDup (map fst logs) /\
-  NoDup (flat_map snd logs) /\
-  forall key l, In (key, l) logs ->
-    group_log_ok k (filter (fun a => gkey m a =? key) members) l.
-Proof.
-  intros H Hv. destruct (reached_set ops r members H) as [Hn _].
-  assert (forall key g, In (key, g) (groups_of m members) -> NoDup g) as Hg.
-  { intros key g Hin. rewrite (groups_of_spec m members key g Hin). apply NoDup_filter. exact Hn. }
-  destruct (visit_groups_spec k sc _ perms _ s' logs Hg Hv) as [Hk Hf].
-  rewrite groups_of_keys in Hk.
-  assert (NoDup (map fst logs)) as Hnk.
-  { rewrite Hk. apply (dedup_first_NoDup Z.eqb Z.eqb_eq). }
-  assert (forall key l, In (key, l) logs -> group_log_ok k (filter (fun a => gkey m a =? key) members) l) as Hok.
-  { intros key l Hin.
-    destruct (Forall2_keys_eq (group_log_ok k) logs (groups_of m members) Hf) with (key := key) (l := l)
-      as (g & Hgin & Hr).
-    - rewrite groups_of_keys. exact Hk.
-    - rewrite groups_of_keys. rewrite <- Hk. exact Hnk.
-    - exact Hin.
-    - rewrite <- (groups_of_spec m members key g Hgin). exact Hr. }
-  repeat split; try assumption.
-  - apply (nodup_flat_logs m); [exact Hnk|]. intros key l Hin. destruct (Hok key l Hin) as (H1 & H2 & _).
-    split; [exact H1|]. intros a Ha. specialize (H2 a Ha). apply filter_In in H2. apply Z.eqb_eq. apply H2.
-  - apply (Hok key l H0).
-  - apply (Hok key l H0).
-  - apply (Hok key l H0).
-Qed.
 
 (* ------------------------------------------------------------------ Part H: program-made sets, exactly *)
 (* a program-made set only ever loses members, and never one that is still alive *)
@@ -1211,15 +659,402 @@ Proof.
   - apply ev2_create_n.
   - eapply ev2_trans; [|apply ev2_sweep]. apply ev2_same_user; [apply evolves_drop_ext|reflexivity].
   - destruct (alive s i) eqn:E; [|apply ev2_refl]. apply ev2_same_user; [apply evolves_add_ext; exact E|reflexivity].
+  - apply ev2_refl.
+  - apply ev2_refl.
 Qed.
 
-Lemma ev2_run_acts self l s : ev2 s (run_acts self l s).
+
+(* ------------------------------------------------------------------ Part E: scripts that spare an agent *)
+Definition removes (self : Z) (x : act) (a : Z) : bool :=
+  match x with
+  | RemoveSelf _ => self =? a
+  | RemoveId i _ => i =? a
+  | Nested _ _ _ => true          (* the inner activation may remove anybody *)
+  | _ => false
+  end.
+
+(* acts that can make the callback raise *)
+Definition may_raise (x : act) : bool :=
+  match x with Raise => true | Nested _ _ _ => true | _ => false end.
+
+(* nobody's turn contains a removal of a *)
+Definition spares (sc : script) (a : Z) : Prop :=
+  forall r x, In x (script_of sc r) -> removes r x a = false.
+(* no callback raises or starts an activation of its own *)
+Definition calm (sc : script) : Prop :=
+  forall r x, In x (script_of sc r) -> may_raise x = false.
+
+Lemma reg_sweep s : reg (sweep s) = reg s.
+Proof. reflexivity. Qed.
+
+Lemma reg_kept_do_remove i keep s a : In a (reg s) -> i <> a -> In a (reg (do_remove i keep s)).
 Proof.
-  revert s. induction l as [|a t IH]; intros s; simpl; [apply ev2_refl|].
-  eapply ev2_trans; [apply ev2_exec_act|apply IH].
+  intros Ha Hi. unfold do_remove. destruct (alive s i); [|exact Ha].
+  rewrite reg_sweep.
+  assert (In a (reg (deregister i s))) as Hd.
+  { unfold deregister. destruct (memz i (reg s)); [|exact Ha]. cbn [reg]. apply remove_z_In. split; [exact Ha|congruence]. }
+  destruct keep; exact Hd.
 Qed.
 
-Lemma ev2_visit1 sc r s : ev2 s (visit1 sc r s).
+Lemma reg_kept_create_n n c keep s a : In a (reg s) -> In a (reg (create_n n c keep s)).
+Proof.
+  revert s. induction n as [|n IH]; intros s H; simpl; [exact H|].
+  apply IH. cbn [reg create1]. apply in_or_app. left. exact H.
+Qed.
+
+Lemma reg_kept_act self s x a : In a (reg s) -> removes self x a = false -> In a (reg (exec_act self s x)).
+Proof.
+  intros Ha Hr. destruct x; simpl in *.
+  - exact Ha.
+  - apply reg_kept_do_remove; [exact Ha|]. apply Z.eqb_neq. exact Hr.
+  - apply reg_kept_do_remove; [exact Ha|]. apply Z.eqb_neq. exact Hr.
+  - apply reg_kept_create_n. exact Ha.
+  - exact Ha.
+  - destruct (alive s i); exact Ha.
+  - exact Ha.
+  - discriminate.
+Qed.
+
+
+(* ------------------------------------------------------------------ Part I: agents_by_type *)
+Definition cfilter (s : st) (c : Z) : list Z := filter (fun a => class_of s a =? c) (reg s).
+
+(* Model._agents_by_type[c] is the registry filtered by exact class, in registry order, and every
+   class of a registered agent is a key *)
+Definition BT (s : st) : Prop :=
+  (forall c m, lookup (SType c) (sets s) = Some m -> m = cfilter s c) /\
+  (forall a, In a (reg s) -> has_set (SType (class_of s a)) (sets s) = true).
+
+Lemma bt_core s s' : reg s' = reg s -> cls s' = cls s -> sets s' = sets s -> BT s -> BT s'.
+Proof.
+  intros Hr Hc Hs [B1 B2]. unfold BT, cfilter, class_of in *. rewrite Hr, Hc, Hs. split; assumption.
+Qed.
+
+Lemma has_set_upd g r l : has_set r (upd_sets g l) = has_set r l.
+Proof.
+  unfold has_set, upd_sets. induction l as [|e t IH]; simpl; [reflexivity|]. rewrite IH. reflexivity.
+Qed.
+
+Lemma has_set_app r l l' : has_set r (l ++ l') = has_set r l || has_set r l'.
+Proof. unfold has_set. apply existsb_app. Qed.
+
+Lemma lookup_none_has_set r l : lookup r l = None -> has_set r l = false.
+Proof.
+  unfold has_set. induction l as [|[r' m] t IH]; simpl; [reflexivity|].
+  destruct (sref_eqb r r'); [discriminate|]. exact IH.
+Qed.
+
+Lemma filter_none {A} (f : A -> bool) l : (forall x, In x l -> f x = false) -> filter f l = [].
+Proof.
+  induction l as [|x t IH]; simpl; intros H; [reflexivity|].
+  rewrite (H x (or_introl eq_refl)). apply IH. intros y Hy. apply H. right. exact Hy.
+Qed.
+
+Lemma remove_z_notin a l : ~ In a l -> remove_z a l = l.
+Proof.
+  intros H. unfold remove_z. apply filter_true_id. intros x Hx.
+  destruct (a =? x) eqn:E; [apply Z.eqb_eq in E; subst; tauto|reflexivity].
+Qed.
+
+Lemma filter_remove_comm f a l : filter f (remove_z a l) = remove_z a (filter f l).
+Proof.
+  unfold remove_z. rewrite !filter_filter. apply filter_ext. intros x. apply andb_comm.
+Qed.
+
+Lemma bt_sweep s : BT s -> BT (sweep s).
+Proof.
+  intros [B1 B2]. split.
+  - intros c m H. cbn [sets sweep set_sets] in H. apply lookup_upd_inv in H. destruct H as (m0 & H0 & ->).
+    rewrite (B1 c m0 H0). change (cfilter (sweep s) c) with (cfilter s c).
+    apply filter_true_id. intros x Hx. apply filter_In in Hx. apply alive_spec. left. apply Hx.
+  - intros a Ha. cbn [sets sweep set_sets]. rewrite has_set_upd. apply (B2 a Ha).
+Qed.
+
+Lemma bt_deregister a s : BT s -> BT (deregister a s).
+Proof.
+  intros [B1 B2]. unfold deregister. destruct (memz a (reg s)) eqn:E; [|split; assumption].
+  split.
+  - intros c m H. cbn [sets] in H. apply lookup_upd_inv in H. destruct H as (m0 & H0 & ->).
+    rewrite (B1 c m0 H0). unfold cfilter, class_of. cbn [reg cls touches].
+    rewrite filter_remove_comm.
+    destruct (class_of_l (cls s) a =? c) eqn:Ec; [reflexivity|].
+    symmetry. apply remove_z_notin. intros Hin. apply filter_In in Hin. destruct Hin as [_ Hin].
+    unfold class_of in Ec. rewrite Ec in Hin. discriminate.
+  - intros x Hx. cbn [reg] in Hx. apply remove_z_In in Hx. cbn [sets]. rewrite has_set_upd.
+    apply (B2 x). apply Hx.
+Qed.
+
+Lemma has_set_create c a l r :
+  has_set r l = true ->
+  has_set r (if has_set (SType c) l
+             then upd_sets (fun r m => if touches c r then m ++ [a] else m) l
+             else upd_sets (fun r m => if touches c r then m ++ [a] else m) l ++ [(SType c, [a])]) = true.
+Proof.
+  intros H. destruct (has_set (SType c) l); [rewrite has_set_upd; exact H|].
+  rewrite has_set_app, has_set_upd, H. reflexivity.
+Qed.
+
+Lemma has_set_create_new c a l :
+  has_set (SType c)
+          (if has_set (SType c) l
+           then upd_sets (fun r m => if touches c r then m ++ [a] else m) l
+           else upd_sets (fun r m => if touches c r then m ++ [a] else m) l ++ [(SType c, [a])]) = true.
+Proof.
+  destruct (has_set (SType c) l) eqn:E; [rewrite has_set_upd; exact E|].
+  rewrite has_set_app. apply orb_true_iff. right. unfold has_set. simpl. rewrite Z.eqb_refl. reflexivity.
+Qed.
+
+Lemma bt_create1 c keep s : Wf s -> BT s -> BT (create1 c keep s).
+Proof.
+  intros (W1 & W2 & _ & _) [B1 B2].
+  assert (forall x, In x (reg s) -> (x =? next_id s) = false) as Hne.
+  { intros x Hx. apply Z.eqb_neq. specialize (W2 x (or_introl Hx)). lia. }
+  assert (forall c', cfilter (create1 c keep s) c' = cfilter s c' ++ (if c =? c' then [next_id s] else [])) as Hcf.
+  { intros c'. unfold cfilter, class_of. cbn [reg cls create1]. rewrite filter_app. f_equal.
+    - apply filter_ext_in. intros x Hx. cbn [class_of_l]. rewrite (Hne x Hx). reflexivity.
+    - cbn [filter class_of_l]. rewrite Z.eqb_refl. destruct (c =? c'); reflexivity. }
+  split.
+  - intros c' m H. cbn [sets create1] in H. apply lookup_create_inv in H. rewrite Hcf.
+    destruct H as [(m0 & H0 & ->)|(Hnone & Heq & ->)].
+    + rewrite (B1 c' m0 H0). cbn [touches]. destruct (c =? c'); [reflexivity|rewrite app_nil_r; reflexivity].
+    + inversion Heq; subst c'. rewrite Z.eqb_refl.
+      assert (cfilter s c = []) as ->; [|reflexivity].
+      apply filter_none. intros x Hx. destruct (class_of s x =? c) eqn:Ec; [|reflexivity].
+      apply Z.eqb_eq in Ec. pose proof (B2 x Hx) as Hh. rewrite Ec in Hh.
+      rewrite (lookup_none_has_set _ _ Hnone) in Hh. discriminate.
+  - intros x Hx. cbn [reg create1] in Hx. cbn [sets create1]. unfold class_of. cbn [cls create1 class_of_l].
+    apply in_app_or in Hx. destruct Hx as [Hx|[Hx|[]]].
+    + rewrite (Hne x Hx). apply has_set_create. apply (B2 x Hx).
+    + subst x. rewrite Z.eqb_refl. apply has_set_create_new.
+Qed.
+
+Lemma inv_bt_create_n n c keep s : Inv s -> BT s -> BT (create_n n c keep s).
+Proof.
+  revert s. induction n as [|n IH]; intros s I B; simpl; [exact B|].
+  apply IH; [apply inv_create1; exact I|apply bt_create1; [apply I|exact B]].
+Qed.
+
+Lemma bt_do_remove a keep s : BT s -> BT (do_remove a keep s).
+Proof.
+  intros B. unfold do_remove. destruct (alive s a); [|exact B].
+  apply bt_sweep. pose proof (bt_deregister a s B) as Bd. destruct keep; [|exact Bd].
+  eapply bt_core; [| | |exact Bd]; reflexivity.
+Qed.
+
+Lemma bt_exec_act self s a : Inv s -> BT s -> BT (exec_act self s a).
+Proof.
+  intros I B. destruct a; simpl.
+  - exact B.
+  - apply bt_do_remove. exact B.
+  - apply bt_do_remove. exact B.
+  - apply inv_bt_create_n; assumption.
+  - apply bt_sweep. eapply bt_core; [| | |exact B]; reflexivity.
+  - destruct (alive s i); [|exact B]. eapply bt_core; [| | |exact B]; reflexivity.
+  - exact B.
+  - exact B.
+Qed.
+
+Lemma zlist_eqb_eq a : forall b, zlist_eqb a b = true -> a = b.
+Proof.
+  induction a as [|x a IH]; intros [|y b]; simpl; intros H; try discriminate; [reflexivity|].
+  apply andb_true_iff in H. destruct H as [H1 H2]. apply Z.eqb_eq in H1. subst. f_equal. apply IH. exact H2.
+Qed.
+
+Lemma is_perm_Permutation p l : is_perm p l = true -> Permutation p l.
+Proof.
+  unfold is_perm. intros H. apply zlist_eqb_eq in H.
+  eapply Permutation_trans; [apply zsort_perm|]. rewrite H. apply Permutation_sym. apply zsort_perm.
+Qed.
+
+Lemma visit_order_spec k perm snap order :
+  visit_order k perm snap = Some order ->
+  Permutation order snap /\ (k <> KShuffleDo -> order = snap) /\ (k = KShuffleDo -> order = perm).
+Proof.
+  destruct k; simpl.
+  - intros H. inversion H. subst. repeat split; auto. discriminate.
+  - destruct (is_perm perm snap) eqn:E; [|discriminate]. intros H. inversion H. subst.
+    repeat split; auto; [apply is_perm_Permutation; exact E|congruence].
+  - intros H. inversion H. subst. repeat split; auto. discriminate.
+Qed.
+
+
+(* ------------------------------------------------------------------ Part J: the loop, for any executor *)
+Definition vst (x : st * list Z * bool) : st := fst (fst x).
+Definition vlog (x : st * list Z * bool) : list Z := snd (fst x).
+Definition vrz (x : st * list Z * bool) : bool := snd x.
+
+Lemma subseq_nil l : subseq [] l.
+Proof. induction l; constructor; assumption. Qed.
+
+(* what the proofs need to know about the code run inside a callback *)
+Definition good_ex (ex : executor) : Prop :=
+  (forall self s a, ev2 s (fst (ex self s a))) /\
+  (forall self s a, Inv s -> Inv (fst (ex self s a))) /\
+  (forall self s a, Inv s -> BT s -> BT (fst (ex self s a))) /\
+  (forall self s x a, In a (reg s) -> removes self x a = false -> In a (reg (fst (ex self s x)))) /\
+  (forall self s x, may_raise x = false -> snd (ex self s x) = false).
+
+Section Generic.
+Variable ex : executor.
+
+(* the reference r has been inspected and, if alive, its agent called: state, and did it raise *)
+Definition visit1 (sc : script) (r : Z) (s : st) : st * bool :=
+  if alive s r then run_acts ex r (script_of sc r) (sweep (set_cur (Some r) s))
+  else (sweep (set_cur None s), false).
+
+Lemma visit_cons sc r rest s :
+  visit ex sc (r :: rest) s =
+  if alive s r then
+    if snd (visit1 sc r s) then (fst (visit1 sc r s), [r], true)
+    else (vst (visit ex sc rest (fst (visit1 sc r s))),
+          r :: vlog (visit ex sc rest (fst (visit1 sc r s))),
+          vrz (visit ex sc rest (fst (visit1 sc r s))))
+  else visit ex sc rest (fst (visit1 sc r s)).
+Proof.
+  simpl. unfold visit1. destruct (alive s r); [|reflexivity].
+  destruct (run_acts ex r (script_of sc r) _) as [s2 rz]. cbn [fst snd]. destruct rz; [reflexivity|].
+  destruct (visit ex sc rest s2) as [[s3 log] z]. reflexivity.
+Qed.
+
+Lemma visit1_dead sc r s : alive s r = false -> snd (visit1 sc r s) = false.
+Proof. intros H. unfold visit1. rewrite H. reflexivity. Qed.
+
+Lemma visit_app sc o1 o2 s :
+  visit ex sc (o1 ++ o2) s =
+  if vrz (visit ex sc o1 s) then visit ex sc o1 s
+  else (vst (visit ex sc o2 (vst (visit ex sc o1 s))),
+        vlog (visit ex sc o1 s) ++ vlog (visit ex sc o2 (vst (visit ex sc o1 s))),
+        vrz (visit ex sc o2 (vst (visit ex sc o1 s)))).
+Proof.
+  revert s. induction o1 as [|r t IH]; intros s.
+  - simpl. unfold vst, vlog, vrz. cbn [fst snd]. destruct (visit ex sc o2 s) as [[a b] c]. reflexivity.
+  - rewrite <- app_comm_cons. rewrite !visit_cons. destruct (alive s r).
+    + destruct (snd (visit1 sc r s)); [reflexivity|]. rewrite IH. unfold vst, vlog, vrz.
+      destruct (visit ex sc t (fst (visit1 sc r s))) as [[a b] c]. cbn [fst snd].
+      destruct c; reflexivity.
+    + apply IH.
+Qed.
+
+Lemma visit_log_subseq sc order s : subseq (vlog (visit ex sc order s)) order.
+Proof.
+  revert s. induction order as [|r t IH]; intros s.
+  - simpl. constructor.
+  - rewrite visit_cons. destruct (alive s r).
+    + destruct (snd (visit1 sc r s)); unfold vlog; cbn [fst snd]; constructor; [apply subseq_nil|apply IH].
+    + constructor. apply IH.
+Qed.
+
+Lemma visit_log_NoDup sc order s : NoDup order -> NoDup (vlog (visit ex sc order s)).
+Proof. intros H. eapply subseq_NoDup; [apply visit_log_subseq|exact H]. Qed.
+
+(* the state in which the reference of agent a is inspected, if the loop gets that far *)
+Fixpoint turn_state (sc : script) (order : list Z) (s : st) (a : Z) : option st :=
+  match order with
+  | [] => None
+  | r :: rest => if r =? a then Some s
+                 else if snd (visit1 sc r s) then None
+                 else turn_state sc rest (fst (visit1 sc r s)) a
+  end.
+
+Lemma visit_exact sc order s a :
+  NoDup order ->
+  (In a (vlog (visit ex sc order s)) <->
+   exists s1, turn_state sc order s a = Some s1 /\ alive s1 a = true).
+Proof.
+  revert s. induction order as [|r t IH]; intros s Hn.
+  - simpl. split; [tauto|]. intros [s1 [H _]]. discriminate.
+  - inversion Hn as [|? ? Hnotin Hn']; subst. rewrite visit_cons. cbn [turn_state].
+    destruct (r =? a) eqn:E.
+    + apply Z.eqb_eq in E. subst r. split.
+      * intros H. exists s. split; [reflexivity|].
+        destruct (alive s a) eqn:Ea; [reflexivity|]. exfalso. apply Hnotin.
+        eapply subseq_In; [apply visit_log_subseq|exact H].
+      * intros [s1 [H1 H2]]. inversion H1; subst s1. rewrite H2.
+        destruct (snd (visit1 sc a s)); unfold vlog; cbn [fst snd]; left; reflexivity.
+    + apply Z.eqb_neq in E. destruct (alive s r) eqn:Er.
+      * destruct (snd (visit1 sc r s)).
+        -- unfold vlog; cbn [fst snd]. split; [intros [H|[]]; congruence|intros [s1 [H _]]; discriminate].
+        -- rewrite <- IH by exact Hn'. unfold vlog at 1; cbn [fst snd].
+           split; [intros [H|H]; [congruence|exact H]|intros H; right; exact H].
+      * rewrite (visit1_dead sc r s Er). apply IH. exact Hn'.
+Qed.
+
+(* a member still registered when its turn comes is called, unless an exception ended the loop before *)
+Lemma visit_registered_called sc pre a post s :
+  vrz (visit ex sc pre s) = false ->
+  In a (reg (vst (visit ex sc pre s))) -> In a (vlog (visit ex sc (pre ++ a :: post) s)).
+Proof.
+  intros Hz H. rewrite visit_app, Hz. unfold vlog at 1. cbn [fst snd]. apply in_or_app. right.
+  rewrite visit_cons.
+  assert (alive (vst (visit ex sc pre s)) a = true) as -> by (apply alive_spec; left; exact H).
+  destruct (snd (visit1 sc a _)); unfold vlog; cbn [fst snd]; left; reflexivity.
+Qed.
+
+(* an exception: the log ends with the agent whose callback raised, nobody after it in the visiting
+   order is called, and the state left behind is the one at the raise *)
+Lemma visit_raised sc order : forall s,
+  vrz (visit ex sc order s) = true ->
+  exists pre r post,
+    order = pre ++ r :: post /\ vrz (visit ex sc pre s) = false /\
+    alive (vst (visit ex sc pre s)) r = true /\
+    snd (visit1 sc r (vst (visit ex sc pre s))) = true /\
+    vlog (visit ex sc order s) = vlog (visit ex sc pre s) ++ [r] /\
+    vst (visit ex sc order s) = fst (visit1 sc r (vst (visit ex sc pre s))).
+Proof.
+  induction order as [|r t IH]; intros s Hz; [simpl in Hz; discriminate|].
+  rewrite visit_cons in Hz. rewrite visit_cons.
+  destruct (alive s r) eqn:Er.
+  - destruct (snd (visit1 sc r s)) eqn:Es.
+    + exists [], r, t. simpl. repeat split; assumption.
+    + unfold vrz in Hz; cbn [snd] in Hz. destruct (IH _ Hz) as (pre & r0 & post & -> & Hp & Ha & Hs & Hl & Hst).
+      exists (r :: pre), r0, post. rewrite !visit_cons, Er, Es. unfold vrz, vlog, vst in *. cbn [fst snd] in *.
+      repeat split; try assumption. rewrite Hl. reflexivity.
+  - destruct (IH _ Hz) as (pre & r0 & post & -> & Hp & Ha & Hs & Hl & Hst).
+    exists (r :: pre), r0, post. rewrite !visit_cons, Er. repeat split; assumption.
+Qed.
+
+Hypothesis G : good_ex ex.
+
+Lemma ev2_run_acts self l : forall s, ev2 s (fst (run_acts ex self l s)).
+Proof.
+  induction l as [|a t IH]; intros s; simpl; [apply ev2_refl|].
+  destruct G as (G1 & _). specialize (G1 self s a). destruct (ex self s a) as [s' rz]. cbn [fst] in G1.
+  destruct rz; [exact G1|]. eapply ev2_trans; [exact G1|apply IH].
+Qed.
+
+Lemma inv_run_acts self l : forall s, Inv s -> Inv (fst (run_acts ex self l s)).
+Proof.
+  induction l as [|a t IH]; intros s I; simpl; [exact I|].
+  destruct G as (_ & G2 & _). specialize (G2 self s a I). destruct (ex self s a) as [s' rz]. cbn [fst] in G2.
+  destruct rz; [exact G2|]. apply IH. exact G2.
+Qed.
+
+Lemma bt_run_acts self l : forall s, Inv s -> BT s -> BT (fst (run_acts ex self l s)).
+Proof.
+  induction l as [|a t IH]; intros s I B; simpl; [exact B|].
+  destruct G as (_ & G2 & G3 & _). specialize (G2 self s a I). specialize (G3 self s a I B).
+  destruct (ex self s a) as [s' rz]. cbn [fst] in *.
+  destruct rz; [exact G3|]. apply IH; assumption.
+Qed.
+
+Lemma reg_kept_run_acts self l a : forall s,
+  In a (reg s) -> (forall x, In x l -> removes self x a = false) -> In a (reg (fst (run_acts ex self l s))).
+Proof.
+  induction l as [|x t IH]; intros s Ha Hl; simpl; [exact Ha|].
+  destruct G as (_ & _ & _ & G4 & _). specialize (G4 self s x a Ha (Hl x (or_introl eq_refl))).
+  destruct (ex self s x) as [s' rz]. cbn [fst] in G4. destruct rz; [exact G4|].
+  apply IH; [exact G4|]. intros y Hy. apply Hl. right. exact Hy.
+Qed.
+
+Lemma calm_run_acts self l : forall s,
+  (forall x, In x l -> may_raise x = false) -> snd (run_acts ex self l s) = false.
+Proof.
+  induction l as [|x t IH]; intros s Hl; simpl; [reflexivity|].
+  destruct G as (_ & _ & _ & _ & G5). specialize (G5 self s x (Hl x (or_introl eq_refl))).
+  destruct (ex self s x) as [s' rz]. cbn [snd] in G5. subst rz. apply IH. intros y Hy. apply Hl. right. exact Hy.
+Qed.
+
+Lemma ev2_visit1 sc r s : ev2 s (fst (visit1 sc r s)).
 Proof.
   unfold visit1. destruct (alive s r) eqn:E.
   - eapply ev2_trans; [apply ev2_same_user; [apply evolves_set_cur_some; exact E|reflexivity]|].
@@ -1227,35 +1062,658 @@ Proof.
   - eapply ev2_trans; [apply ev2_same_user; [apply evolves_set_cur_none|reflexivity]|apply ev2_sweep].
 Qed.
 
-Lemma ev2_visit sc order s : ev2 s (fst (visit sc order s)).
+Lemma inv_visit1 sc r s : Inv s -> Inv (fst (visit1 sc r s)).
 Proof.
-  revert s. induction order as [|r t IH]; intros s; [apply ev2_refl|].
-  rewrite visit_cons. cbn [fst]. eapply ev2_trans; [apply ev2_visit1|apply IH].
+  intros [W L]. unfold visit1. destruct (alive s r) eqn:E.
+  - apply inv_run_acts. split; [apply wf_sweep; apply wf_set_cur_some; assumption|apply live_sweep].
+  - split; [apply wf_sweep; apply wf_set_cur_none; assumption|apply live_sweep].
 Qed.
 
-Lemma ev2_activate k perm sc snap s s' log :
-  activate k perm sc snap s = Some (s', log) -> ev2 s s'.
+Lemma bt_visit1 sc r s : Inv s -> BT s -> BT (fst (visit1 sc r s)).
 Proof.
-  intros H. apply activate_spec in H. destruct H as (order & _ & _ & ->).
-  eapply ev2_trans; [apply ev2_visit|].
-  eapply ev2_trans; [apply ev2_same_user; [apply evolves_set_cur_none|reflexivity]|apply ev2_sweep].
+  intros [W L] B. unfold visit1. destruct (alive s r) eqn:E.
+  - apply bt_run_acts.
+    + split; [apply wf_sweep; apply wf_set_cur_some; assumption|apply live_sweep].
+    + apply bt_sweep. eapply bt_core; [| | |exact B]; reflexivity.
+  - apply bt_sweep. eapply bt_core; [| | |exact B]; reflexivity.
 Qed.
+
+Lemma reg_kept_visit1 sc r s a : In a (reg s) -> spares sc a -> In a (reg (fst (visit1 sc r s))).
+Proof.
+  intros Ha Hs. unfold visit1. destruct (alive s r); [|exact Ha].
+  apply reg_kept_run_acts; [exact Ha|]. intros x Hx. apply (Hs r x Hx).
+Qed.
+
+Lemma calm_visit1 sc r s : calm sc -> snd (visit1 sc r s) = false.
+Proof.
+  intros Hc. unfold visit1. destruct (alive s r); [|reflexivity].
+  apply calm_run_acts. intros x Hx. apply (Hc r x Hx).
+Qed.
+
+(* everything below follows the same recursion *)
+Lemma visit_ind_state (P : st -> Prop) sc :
+  (forall r s, P s -> P (fst (visit1 sc r s))) ->
+  forall order s, P s -> P (vst (visit ex sc order s)).
+Proof.
+  intros Hstep. induction order as [|r t IH]; intros s Hs; [exact Hs|].
+  rewrite visit_cons. destruct (alive s r).
+  - destruct (snd (visit1 sc r s)); unfold vst; cbn [fst]; [apply Hstep; exact Hs|].
+    apply IH. apply Hstep. exact Hs.
+  - apply IH. apply Hstep. exact Hs.
+Qed.
+
+Lemma ev2_visit sc order s : ev2 s (vst (visit ex sc order s)).
+Proof.
+  apply (visit_ind_state (fun s' => ev2 s s')); [|apply ev2_refl].
+  intros r s' H. eapply ev2_trans; [exact H|apply ev2_visit1].
+Qed.
+
+Lemma inv_visit sc order s : Inv s -> Inv (vst (visit ex sc order s)).
+Proof. apply (visit_ind_state Inv). intros r s'. apply inv_visit1. Qed.
+
+Lemma inv_bt_visit sc order s : Inv s -> BT s -> Inv (vst (visit ex sc order s)) /\ BT (vst (visit ex sc order s)).
+Proof.
+  intros I B. apply (visit_ind_state (fun s' => Inv s' /\ BT s')); [|split; assumption].
+  intros r s' [I' B']. split; [apply inv_visit1; exact I'|apply bt_visit1; assumption].
+Qed.
+
+Lemma reg_kept_visit sc order s a : In a (reg s) -> spares sc a -> In a (reg (vst (visit ex sc order s))).
+Proof.
+  intros Ha Hs. apply (visit_ind_state (fun s' => In a (reg s'))); [|exact Ha].
+  intros r s' H. apply reg_kept_visit1; assumption.
+Qed.
+
+Lemma calm_visit sc order : forall s, calm sc -> vrz (visit ex sc order s) = false.
+Proof.
+  induction order as [|r t IH]; intros s Hc; [reflexivity|].
+  rewrite visit_cons, (calm_visit1 sc r s Hc). destruct (alive s r); [unfold vrz; cbn [snd]|]; apply IH; exact Hc.
+Qed.
+
+(* death is final: a dead agent (its id already handed out) is never called again *)
+Lemma dead_never_called sc order : forall s a,
+  alive s a = false -> a < next_id s -> ~ In a (vlog (visit ex sc order s)).
+Proof.
+  induction order as [|r t IH]; intros s a Hd Hb; [simpl; tauto|].
+  rewrite visit_cons.
+  pose proof (ev2_visit1 sc r s) as [(N & D & _ & _) _].
+  assert (alive (fst (visit1 sc r s)) a = false) as Hd'.
+  { destruct (alive (fst (visit1 sc r s)) a) eqn:E; [|reflexivity]. rewrite (D a Hb E) in Hd. discriminate. }
+  assert (~ In a (vlog (visit ex sc t (fst (visit1 sc r s))))) as Hrest by (apply IH; [exact Hd'|lia]).
+  destruct (alive s r) eqn:Er; [|exact Hrest].
+  destruct (snd (visit1 sc r s)); unfold vlog; cbn [fst snd].
+  - intros [H|[]]. subst. congruence.
+  - intros [H|H]; [subst; congruence|exact (Hrest H)].
+Qed.
+
+Lemma unremoved_called sc order s a :
+  In a (reg s) -> spares sc a -> calm sc -> In a order -> In a (vlog (visit ex sc order s)).
+Proof.
+  intros Ha Hs Hc Hin. apply in_split in Hin. destruct Hin as (pre & post & ->).
+  apply visit_registered_called; [apply calm_visit; exact Hc|apply reg_kept_visit; assumption].
+Qed.
+
+(* no removal, no exception anywhere in the script: the log is the whole visiting order *)
+Lemma no_removal_all_called sc order : forall s,
+  (forall a, spares sc a) -> calm sc -> (forall a, In a order -> In a (reg s)) ->
+  vlog (visit ex sc order s) = order.
+Proof.
+  induction order as [|r t IH]; intros s Hs Hc Hr; [reflexivity|].
+  rewrite visit_cons, (calm_visit1 sc r s Hc).
+  assert (alive s r = true) as -> by (apply alive_spec; left; apply Hr; left; reflexivity).
+  unfold vlog; cbn [fst snd]. f_equal. apply IH; [exact Hs|exact Hc|].
+  intros a Ha. apply reg_kept_visit1; [|apply Hs]. apply Hr. right. exact Ha.
+Qed.
+
+(* --- one activation --- *)
+Lemma activate_spec k perm sc snap s s' log rz :
+  activate ex k perm sc snap s = Some (s', log, rz) ->
+  exists order, visit_order k perm snap = Some order /\
+                log = vlog (visit ex sc order (push_frame s)) /\
+                rz = vrz (visit ex sc order (push_frame s)) /\
+                s' = sweep (pop_frame (vst (visit ex sc order (push_frame s)))).
+Proof.
+  unfold activate. destruct (visit_order k perm snap) as [order|]; [|discriminate].
+  destruct (visit ex sc order (push_frame s)) as [[s1 l] z] eqn:E. intros H. inversion H; subst.
+  exists order. rewrite E. repeat split; reflexivity.
+Qed.
+
+Lemma ev2_activate k perm sc snap s s' log rz :
+  activate ex k perm sc snap s = Some (s', log, rz) -> ev2 s s'.
+Proof.
+  intros H. apply activate_spec in H. destruct H as (order & _ & _ & _ & ->).
+  eapply ev2_trans; [apply ev2_same_user; [apply evolves_push|reflexivity]|].
+  eapply ev2_trans; [apply ev2_visit|].
+  eapply ev2_trans; [apply ev2_same_user; [apply evolves_pop|reflexivity]|apply ev2_sweep].
+Qed.
+
+Lemma inv_bt_activate k perm sc snap s s' log rz :
+  Inv s -> BT s -> activate ex k perm sc snap s = Some (s', log, rz) -> Inv s' /\ BT s'.
+Proof.
+  intros [W L] B H. apply activate_spec in H. destruct H as (order & _ & _ & _ & ->).
+  destruct (inv_bt_visit sc order (push_frame s)) as [[W' L'] B'].
+  - split; [apply wf_push; exact W|]. eapply live_same_sets; [exact L|reflexivity|].
+    intros a Ha. apply alive_spec in Ha. apply alive_spec. unfold refs in *. cbn [reg ext cur push_frame set_frames].
+    destruct Ha as [Ha|[Ha|Ha]]; [left; exact Ha|right; left; exact Ha|right; right; right; exact Ha].
+  - eapply bt_core; [| | |exact B]; reflexivity.
+  - split; [split; [apply wf_sweep; apply wf_pop; exact W'|apply live_sweep]|].
+    apply bt_sweep. eapply bt_core; [| | |exact B']; reflexivity.
+Qed.
+
+Lemma inv_activate k perm sc snap s s' log rz :
+  Inv s -> activate ex k perm sc snap s = Some (s', log, rz) -> Inv s'.
+Proof.
+  intros [W L] H. apply activate_spec in H. destruct H as (order & _ & _ & _ & ->).
+  assert (Inv (push_frame s)) as Ip.
+  { split; [apply wf_push; exact W|]. eapply live_same_sets; [exact L|reflexivity|].
+    intros a Ha. apply alive_spec in Ha. apply alive_spec. unfold refs in *. cbn [reg ext cur push_frame set_frames].
+    destruct Ha as [Ha|[Ha|Ha]]; [left; exact Ha|right; left; exact Ha|right; right; right; exact Ha]. }
+  destruct (inv_visit sc order _ Ip) as [W' L'].
+  split; [apply wf_sweep; apply wf_pop; exact W'|apply live_sweep].
+Qed.
+
+Lemma activate_once k perm sc snap s s' log rz :
+  NoDup snap -> activate ex k perm sc snap s = Some (s', log, rz) -> NoDup log.
+Proof.
+  intros Hn H. apply activate_spec in H. destruct H as (order & Ho & -> & _).
+  apply visit_log_NoDup. apply visit_order_spec in Ho. destruct Ho as (P & _).
+  eapply Permutation_NoDup; [apply Permutation_sym; exact P|exact Hn].
+Qed.
+
+Lemma activate_order k perm sc snap s s' log rz :
+  activate ex k perm sc snap s = Some (s', log, rz) ->
+  match k with
+  | KShuffleDo => subseq log perm /\ Permutation perm snap
+  | _ => subseq log snap
+  end.
+Proof.
+  intros H. apply activate_spec in H. destruct H as (order & Ho & -> & _).
+  pose proof (visit_log_subseq sc order (push_frame s)) as Hs.
+  apply visit_order_spec in Ho. destruct Ho as (P & H1 & H2).
+  destruct k.
+  - rewrite <- H1 by discriminate. exact Hs.
+  - rewrite <- H2 by reflexivity. split; [exact Hs|exact P].
+  - rewrite <- H1 by discriminate. exact Hs.
+Qed.
+
+Lemma activate_members_only k perm sc snap s s' log rz :
+  activate ex k perm sc snap s = Some (s', log, rz) -> forall a, In a log -> In a snap.
+Proof.
+  intros H a Ha. apply activate_spec in H. destruct H as (order & Ho & -> & _).
+  apply visit_order_spec in Ho. destruct Ho as (P & _).
+  eapply Permutation_in; [exact P|]. eapply subseq_In; [apply visit_log_subseq|exact Ha].
+Qed.
+
+Lemma activate_exact k perm sc snap s s' log rz order :
+  NoDup snap -> activate ex k perm sc snap s = Some (s', log, rz) -> visit_order k perm snap = Some order ->
+  forall a, In a log <-> exists s1, turn_state sc order (push_frame s) a = Some s1 /\ alive s1 a = true.
+Proof.
+  intros Hn H Ho a. apply activate_spec in H. destruct H as (order' & Ho' & -> & _).
+  rewrite Ho in Ho'. inversion Ho'; subst order'. apply visit_exact.
+  apply visit_order_spec in Ho. destruct Ho as (P & _).
+  eapply Permutation_NoDup; [apply Permutation_sym; exact P|exact Hn].
+Qed.
+
+Lemma activate_no_new k perm sc snap s s' log rz :
+  (forall a, In a snap -> a < next_id s) ->
+  activate ex k perm sc snap s = Some (s', log, rz) ->
+  (forall a, In a log -> a < next_id s) /\
+  (forall a, In a (reg s') -> ~ In a (reg s) -> next_id s <= a /\ ~ In a log).
+Proof.
+  intros Hb H. split.
+  - intros a Ha. apply Hb. eapply activate_members_only; eassumption.
+  - intros a Ha Hn. pose proof (ev2_activate _ _ _ _ _ _ _ _ H) as [(_ & _ & R & _) _].
+    destruct (R a Ha) as [Hr|Hr]; [tauto|]. split; [lia|].
+    intros Hl. assert (a < next_id s) by (apply Hb; eapply activate_members_only; eassumption). lia.
+Qed.
+
+(* --- GroupBy.do / map --- *)
+Lemma inv_bt_visit_groups k sc gs : forall perms s s' logs rz,
+  Inv s -> BT s -> visit_groups ex k sc gs perms s = Some (s', logs, rz) -> Inv s' /\ BT s'.
+Proof.
+  induction gs as [|[key g] gs IH]; intros perms s s' logs rz I B; simpl.
+  - intros H. inversion H; subst. split; assumption.
+  - destruct (activate ex k (hd [] perms) sc (filter (alive s) g) s) as [[[s1 log1] rz1]|] eqn:E; [|discriminate].
+    destruct (inv_bt_activate _ _ _ _ _ _ _ _ I B E) as [I1 B1].
+    destruct rz1; [intros H; inversion H; subst; split; assumption|].
+    destruct (visit_groups ex k sc gs (tl perms) s1) as [[[s2 logs2] rz2]|] eqn:E2; [|discriminate].
+    intros H. inversion H; subst. eapply IH; eassumption.
+Qed.
+
+End Generic.
+
+(* ------------------------------------------------------------------ Part K: the two executors *)
+Lemma ev2_nlog s l : ev2 s (set_nlog l s).
+Proof.
+  apply ev2_same_user; [|reflexivity]. apply evolves_same_sets; try reflexivity. intros a Ha. exact Ha.
+Qed.
+
+Lemma inv_nlog s l : Inv s -> Inv (set_nlog l s).
+Proof.
+  intros [W L]. split.
+  - eapply wf_same_sets; try exact W; try reflexivity. intros a Ha. destruct W as (_ & W2 & _). apply W2. exact Ha.
+  - eapply live_same_sets; [exact L|reflexivity|]. intros a Ha. exact Ha.
+Qed.
+
+Lemma bt_nlog s l : BT s -> BT (set_nlog l s).
+Proof. intros B. eapply bt_core; [| | |exact B]; reflexivity. Qed.
+
+Lemma good_ex0 : good_ex ex0.
+Proof.
+  unfold good_ex. split; [|split; [|split; [|split]]]; cbn [ex0 fst snd].
+  - intros self s a. apply ev2_exec_act.
+  - intros self s a I. apply inv_exec_act; assumption.
+  - intros self s a I B. apply bt_exec_act; assumption.
+  - intros self s x a. apply reg_kept_act.
+  - intros self s x H. destruct x; simpl in *; congruence.
+Qed.
+
+Lemma ex1_basic sc2 self s a : (forall k r p, a <> Nested k r p) -> ex1 sc2 self s a = ex0 self s a.
+Proof. intros H. destruct a; try reflexivity. exfalso. eapply H. reflexivity. Qed.
+
+(* what the nested activation leaves behind, whatever it was *)
+Lemma ex1_nested_cases sc2 self s k r perm :
+  fst (ex1 sc2 self s (Nested k r perm)) = s \/
+  (exists l, fst (ex1 sc2 self s (Nested k r perm)) = set_nlog l s) \/
+  (exists snap s' log rz l, activate ex0 k perm sc2 snap s = Some (s', log, rz) /\
+                            fst (ex1 sc2 self s (Nested k r perm)) = set_nlog l s').
+Proof.
+  cbn [ex1]. destruct (lookup r (sets s)) as [snap|]; [|left; reflexivity].
+  destruct (activate ex0 k perm sc2 snap s) as [[[s' log] rz]|] eqn:E.
+  - right. right. exists snap, s', log, rz. eexists. split; [exact E|reflexivity].
+  - right. left. eexists. reflexivity.
+Qed.
+
+Lemma good_ex1 sc2 : good_ex (ex1 sc2).
+Proof.
+  destruct good_ex0 as (G1 & G2 & G3 & G4 & G5).
+  unfold good_ex. split; [|split; [|split; [|split]]].
+  - intros self s a. destruct a; try apply G1.
+    destruct (ex1_nested_cases sc2 self s k r perm) as [->|[(l & ->)|(snap & s' & log & rz & l & E & ->)]].
+    + apply ev2_refl.
+    + apply ev2_nlog.
+    + eapply ev2_trans; [apply (ev2_activate ex0 good_ex0 _ _ _ _ _ _ _ _ E)|apply ev2_nlog].
+  - intros self s a I. destruct a; try (apply G2; exact I).
+    destruct (ex1_nested_cases sc2 self s k r perm) as [->|[(l & ->)|(snap & s' & log & rz & l & E & ->)]].
+    + exact I.
+    + apply inv_nlog. exact I.
+    + apply inv_nlog. apply (inv_activate ex0 good_ex0 _ _ _ _ _ _ _ _ I E).
+  - intros self s a I B. destruct a; try (apply G3; assumption).
+    destruct (ex1_nested_cases sc2 self s k r perm) as [->|[(l & ->)|(snap & s' & log & rz & l & E & ->)]].
+    + exact B.
+    + apply bt_nlog. exact B.
+    + apply bt_nlog. apply (inv_bt_activate ex0 good_ex0 _ _ _ _ _ _ _ _ I B E).
+  - intros self s x a Ha Hr. destruct x; try (apply G4; assumption). discriminate.
+  - intros self s x Hm. destruct x; try (apply G5; assumption). discriminate.
+Qed.
+
+(* ------------------------------------------------------------------ Part L: histories *)
+Lemma inv_init : Inv init_st.
+Proof.
+  split; [unfold Wf; repeat split|].
+  - constructor.
+  - intros a [H|[H|H]]; simpl in H; tauto.
+  - simpl in H. destruct (sref_eqb r SAll); inversion H. constructor.
+  - simpl in H. destruct (sref_eqb r SAll); inversion H. intros a [].
+  - intros r m H a Ha. simpl in H. destruct (sref_eqb r SAll); inversion H. subst. destruct Ha.
+Qed.
+
+Lemma bt_init : BT init_st.
+Proof. split; [intros c m H; simpl in H; discriminate|intros a []]. Qed.
+
+Lemma shuffle_then_do_unfold ex perm sc snap s res :
+  shuffle_then_do ex perm sc snap s = Some res ->
+  activate ex KDo [] sc (filter (alive s) perm) s = Some res.
+Proof. unfold shuffle_then_do, shuffle_new. destruct (is_perm perm snap); [tauto|discriminate]. Qed.
+
+Lemma inv_bt_step s o : Inv s -> BT s -> Inv (fst (step s o)) /\ BT (fst (step s o)).
+Proof.
+  intros I0 B0. unfold step.
+  pose proof (inv_nlog s [] I0) as I. pose proof (bt_nlog s [] B0) as B.
+  set (s1 := set_nlog [] s) in *. clearbody s1. clear I0 B0.
+  destruct o.
+  - cbn [fst]. split; [apply inv_exec_act; exact I|apply bt_exec_act; assumption].
+  - cbn [fst]. destruct I as [(W1 & W2 & W3 & W4) L].
+    assert (forall a, In a (dedup_first Z.eqb (filter (alive s1) ids)) -> alive s1 a = true) as Hal.
+    { intros a Ha. apply (proj1 (dedup_first_In Z.eqb Z.eqb_eq _ _)) in Ha. apply filter_In in Ha. apply Ha. }
+    split; [split; [unfold Wf; cbn [reg next_id sets]; repeat split|]|].
+    + exact W1.
+    + exact W2.
+    + rewrite lookup_app in H. destruct (lookup r (sets s1)) as [m0|] eqn:E0.
+      * inversion H; subst. apply (W3 r m E0).
+      * destruct (sref_eqb r (SUser (nuser s1))); inversion H. apply (dedup_first_NoDup Z.eqb Z.eqb_eq).
+    + rewrite lookup_app in H. destruct (lookup r (sets s1)) as [m0|] eqn:E0.
+      * inversion H; subst. apply (W3 r m E0).
+      * destruct (sref_eqb r (SUser (nuser s1))); inversion H. subst. intros a Ha.
+        apply W2. apply alive_spec. apply Hal. exact Ha.
+    + rewrite lookup_app, W4. reflexivity.
+    + intros r m H a Ha. cbn [sets] in H. rewrite lookup_app in H.
+      change (alive s1 a = true).
+      destruct (lookup r (sets s1)) as [m0|] eqn:E0.
+      * inversion H; subst. exact (L r m E0 a Ha).
+      * destruct (sref_eqb r (SUser (nuser s1))); inversion H. subst. apply Hal. exact Ha.
+    + destruct B as [B1 B2]. split.
+      * intros c m H. cbn [sets] in H. rewrite lookup_app in H.
+        destruct (lookup (SType c) (sets s1)) as [m0|] eqn:E0; [inversion H; subst; apply (B1 c m E0)|].
+        cbn [sref_eqb] in H. discriminate.
+      * intros a Ha. unfold class_of. cbn [sets cls]. rewrite has_set_app.
+        pose proof (B2 a Ha) as Hh. unfold class_of in Hh. rewrite Hh. reflexivity.
+  - split; assumption.
+  - destruct (lookup s0 (sets s1)) as [snap|]; [|split; assumption].
+    destruct (activate (ex1 sc2) k perm sc snap s1) as [[[s' log] rz]|] eqn:E; [|split; assumption].
+    unfold obs_activation. cbn [fst]. apply (inv_bt_activate _ (good_ex1 sc2) _ _ _ _ _ _ _ _ I B E).
+  - destruct (lookup s0 (sets s1)) as [snap|]; [|split; assumption].
+    destruct (shuffle_then_do (ex1 sc2) perm sc snap s1) as [[[s' log] rz]|] eqn:E; [|split; assumption].
+    unfold obs_activation. cbn [fst]. apply shuffle_then_do_unfold in E.
+    apply (inv_bt_activate _ (good_ex1 sc2) _ _ _ _ _ _ _ _ I B E).
+  - destruct (lookup s0 (sets s1)) as [members|]; [|split; assumption].
+    destruct (m <=? 0); [split; assumption|].
+    destruct (visit_groups (ex1 sc2) k sc (groups_of m members) perms s1) as [[[s' logs] rz]|] eqn:E; [|split; assumption].
+    cbn [fst]. apply (inv_bt_visit_groups _ (good_ex1 sc2) _ _ _ _ _ _ _ _ I B E).
+Qed.
+
+(* the state reached by a history *)
+Fixpoint state_after (s : st) (ops : list op) : st :=
+  match ops with
+  | [] => s
+  | o :: t => state_after (fst (step s o)) t
+  end.
+
+Lemma inv_bt_state_after ops : forall s, Inv s -> BT s -> Inv (state_after s ops) /\ BT (state_after s ops).
+Proof.
+  induction ops as [|o t IH]; intros s I B; simpl; [split; assumption|].
+  destruct (inv_bt_step s o I B) as [I' B']. apply IH; assumption.
+Qed.
+
+Definition reached (ops : list op) : st := state_after init_st ops.
+
+Lemma inv_reachable ops : Inv (reached ops).
+Proof. apply (inv_bt_state_after ops init_st inv_init bt_init). Qed.
+
+Lemma bt_reachable ops : BT (reached ops).
+Proof. apply (inv_bt_state_after ops init_st inv_init bt_init). Qed.
+
+(* run_ops really is the observation stream of state_after *)
+Lemma run_ops_app s ops o :
+  run_ops s (ops ++ [o]) = run_ops s ops ++ [snd (step (state_after s ops) o)].
+Proof.
+  revert s. induction ops as [|x t IH]; intros s; simpl.
+  - destruct (step s o). reflexivity.
+  - destruct (step s x) as [s' ob] eqn:E. cbn [fst]. rewrite IH. reflexivity.
+Qed.
+
+Lemma reached_set ops r snap :
+  lookup r (sets (reached ops)) = Some snap ->
+  NoDup snap /\ forall a, In a snap -> alive (reached ops) a = true /\ a < next_id (reached ops).
+Proof.
+  intros H. destruct (inv_reachable ops) as [(W1 & W2 & W3 & W4) L].
+  destruct (W3 r snap H) as [Hn Hb]. split; [exact Hn|]. intros a Ha. split; [exact (L r snap H a Ha)|exact (Hb a Ha)].
+Qed.
+
+Lemma reached_all_is_reg ops : lookup SAll (sets (reached ops)) = Some (reg (reached ops)).
+Proof. destruct (inv_reachable ops) as [(_ & _ & _ & W4) _]. exact W4. Qed.
+
+Lemma has_set_lookup r l : has_set r l = true -> exists m, lookup r l = Some m.
+Proof.
+  destruct (lookup r l) as [m|] eqn:E; [intros _; exists m; reflexivity|].
+  rewrite (lookup_none_has_set r l E). discriminate.
+Qed.
+
+(* agents_by_type[c] = the registry filtered by exact class c, in registry order; the class of every
+   registered agent is a key and the agent is in that set *)
+Lemma reached_by_type ops :
+  (forall c m, lookup (SType c) (sets (reached ops)) = Some m ->
+               m = filter (fun a => class_of (reached ops) a =? c) (reg (reached ops))) /\
+  (forall a, In a (reg (reached ops)) ->
+             exists m, lookup (SType (class_of (reached ops) a)) (sets (reached ops)) = Some m /\ In a m).
+Proof.
+  destruct (bt_reachable ops) as [B1 B2]. split; [exact B1|].
+  intros a Ha. destruct (has_set_lookup _ _ (B2 a Ha)) as [m Hm]. exists m. split; [exact Hm|].
+  rewrite (B1 _ m Hm). apply filter_In. split; [exact Ha|apply Z.eqb_refl].
+Qed.
+
+(* --- statements about one activation in a reached state, for any well-behaved executor --- *)
+Section Reached.
+Variable ex : executor.
+Hypothesis G : good_ex ex.
+
+Lemma reached_once ops k r perm sc snap s' log rz :
+  lookup r (sets (reached ops)) = Some snap ->
+  activate ex k perm sc snap (reached ops) = Some (s', log, rz) -> NoDup log.
+Proof. intros H. apply activate_once. apply (reached_set ops r snap H). Qed.
+
+Lemma reached_exact ops k r perm sc snap s' log rz order :
+  lookup r (sets (reached ops)) = Some snap ->
+  activate ex k perm sc snap (reached ops) = Some (s', log, rz) -> visit_order k perm snap = Some order ->
+  forall a, In a log <->
+            exists s1, turn_state ex sc order (push_frame (reached ops)) a = Some s1 /\ alive s1 a = true.
+Proof. intros H. apply activate_exact. apply (reached_set ops r snap H). Qed.
+
+Lemma reached_no_new ops k r perm sc snap s' log rz :
+  lookup r (sets (reached ops)) = Some snap ->
+  activate ex k perm sc snap (reached ops) = Some (s', log, rz) ->
+  (forall a, In a log -> In a snap /\ a < next_id (reached ops)) /\
+  (forall a, In a (reg s') -> ~ In a (reg (reached ops)) -> next_id (reached ops) <= a /\ ~ In a log).
+Proof.
+  intros H Ha. destruct (reached_set ops r snap H) as [_ Hb].
+  destruct (activate_no_new ex G k perm sc snap _ s' log rz (fun a Hin => proj2 (Hb a Hin)) Ha) as [H1 H2].
+  split; [|exact H2]. intros a Hin. split; [eapply activate_members_only; eassumption|apply H1; exact Hin].
+Qed.
+
+Lemma reached_unremoved_called ops k r perm sc snap s' log rz a :
+  lookup r (sets (reached ops)) = Some snap ->
+  activate ex k perm sc snap (reached ops) = Some (s', log, rz) ->
+  In a snap -> In a (reg (reached ops)) -> spares sc a -> calm sc -> In a log.
+Proof.
+  intros H Hact Hin Hreg Hsp Hc. apply activate_spec in Hact. destruct Hact as (order & Ho & -> & _).
+  apply (unremoved_called ex G); [exact Hreg|exact Hsp|exact Hc|].
+  apply visit_order_spec in Ho. destruct Ho as (P & _).
+  eapply Permutation_in; [apply Permutation_sym; exact P|exact Hin].
+Qed.
+
+(* activating a set of registered agents (model.agents, agents_by_type[c]) with callbacks that remove
+   nobody, raise nothing and start no activation calls everybody, in visiting order *)
+Lemma reached_all_called ops k r perm sc snap s' log rz order :
+  lookup r (sets (reached ops)) = Some snap -> (forall a, In a snap -> In a (reg (reached ops))) ->
+  activate ex k perm sc snap (reached ops) = Some (s', log, rz) ->
+  visit_order k perm snap = Some order ->
+  (forall a, spares sc a) -> calm sc -> log = order /\ rz = false.
+Proof.
+  intros _ Hreg Hact Ho Hsp Hc. apply activate_spec in Hact. destruct Hact as (order' & Ho' & -> & -> & _).
+  rewrite Ho in Ho'. inversion Ho'; subst order'. split; [|apply (calm_visit ex G); exact Hc].
+  apply (no_removal_all_called ex G); [exact Hsp|exact Hc|].
+  apply visit_order_spec in Ho. destruct Ho as (P & _). intros a Ha. apply Hreg. eapply Permutation_in; [exact P|exact Ha].
+Qed.
+
+Lemma activate_sets_keep_order k perm sc snap s s' log rz :
+  activate ex k perm sc snap s = Some (s', log, rz) ->
+  forall r m, lookup r (sets s) = Some m ->
+    exists keep new, lookup r (sets s') = Some (filter keep m ++ new) /\
+                     forall a, In a new -> next_id s <= a < next_id s'.
+Proof. intros H. pose proof (ev2_activate ex G _ _ _ _ _ _ _ _ H) as [(_ & _ & _ & S) _]. exact S. Qed.
+
+(* death is final, also across an aborted prefix *)
+Lemma dead_after_prefix_never_called sc pre post s a :
+  alive (vst (visit ex sc pre s)) a = false -> a < next_id (vst (visit ex sc pre s)) ->
+  ~ In a (vlog (visit ex sc post (vst (visit ex sc pre s)))).
+Proof. intros Hd Hb. apply (dead_never_called ex G); assumption. Qed.
 
 (* after any activation a program-made set is exactly its former self minus the agents that died *)
-Lemma reached_user_set_exact ops k r perm sc snap s' log j m :
+Lemma reached_user_set_exact ops k r perm sc snap s' log rz j m :
   lookup r (sets (reached ops)) = Some snap ->
-  activate k perm sc snap (reached ops) = Some (s', log) ->
+  activate ex k perm sc snap (reached ops) = Some (s', log, rz) ->
   lookup (SUser j) (sets (reached ops)) = Some m ->
   lookup (SUser j) (sets s') = Some (filter (alive s') m).
 Proof.
   intros _ Hact Hm.
-  destruct (ev2_activate _ _ _ _ _ _ _ Hact) as [_ U].
+  destruct (ev2_activate ex G _ _ _ _ _ _ _ _ Hact) as [_ U].
   destruct (U j m Hm) as (keep & L & C). rewrite L. f_equal.
-  destruct (inv_activate _ _ _ _ _ _ _ (inv_reachable ops) Hact) as [_ Lv].
+  destruct (inv_activate ex G _ _ _ _ _ _ _ _ (inv_reachable ops) Hact) as [_ Lv].
   destruct (reached_set ops (SUser j) m Hm) as [_ Hb].
   apply filter_ext_in. intros x Hx.
   destruct (keep x) eqn:Ek.
   - symmetry. apply (Lv (SUser j) _ L). apply filter_In. split; assumption.
   - destruct (alive s' x) eqn:Ea; [|reflexivity].
     rewrite (C x Hx (proj2 (Hb x Hx)) Ea) in Ek. discriminate.
+Qed.
+
+(* by-type sets are sets of registered agents: they inherit the statements above *)
+Lemma reached_by_type_members ops c snap :
+  lookup (SType c) (sets (reached ops)) = Some snap -> forall a, In a snap -> In a (reg (reached ops)).
+Proof.
+  intros H a Ha. destruct (reached_by_type ops) as [B1 _]. rewrite (B1 c snap H) in Ha.
+  apply filter_In in Ha. apply Ha.
+Qed.
+
+(* shuffle_do  =  shuffle() then do(): same outcome permutation of the same snapshot, same calls, same state *)
+Lemma reached_shuffle_do_eq ops r snap perm sc :
+  lookup r (sets (reached ops)) = Some snap ->
+  shuffle_then_do ex perm sc snap (reached ops) = activate ex KShuffleDo perm sc snap (reached ops).
+Proof.
+  intros H. destruct (reached_set ops r snap H) as [_ Hb].
+  unfold shuffle_then_do, shuffle_new, activate. cbn [visit_order].
+  destruct (is_perm perm snap) eqn:E; [|reflexivity].
+  assert (filter (alive (reached ops)) perm = perm) as ->; [|reflexivity].
+  apply filter_true_id. intros x Hx. apply Hb.
+  eapply Permutation_in; [apply is_perm_Permutation; exact E|exact Hx].
+Qed.
+
+End Reached.
+
+Lemma obs_log_cons args a log : obs_log args (a :: log) = a :: args ++ obs_log args log.
+Proof. reflexivity. Qed.
+
+(* ------------------------------------------------------------------ Part G: GroupBy.do / map *)
+Lemma NoDup_app_intro (l1 l2 : list Z) :
+  NoDup l1 -> NoDup l2 -> (forall x, In x l1 -> ~ In x l2) -> NoDup (l1 ++ l2).
+Proof.
+  induction l1 as [|x t IH]; simpl; intros H1 H2 Hd; [exact H2|].
+  inversion H1; subst. constructor.
+  - intros H. apply in_app_or in H. destruct H as [H|H]; [tauto|]. apply (Hd x); [left; reflexivity|exact H].
+  - apply IH; [assumption|assumption|]. intros y Hy. apply Hd. right. exact Hy.
+Qed.
+
+Lemma subseq_trans l1 l2 l3 : subseq l1 l2 -> subseq l2 l3 -> subseq l1 l3.
+Proof.
+  intros H12 H23. revert l1 H12. induction H23; intros l1 H12.
+  - exact H12.
+  - inversion H12; subst; [constructor; apply IHsubseq; assumption|apply sub_skip; apply IHsubseq; assumption].
+  - apply sub_skip. apply IHsubseq. exact H12.
+Qed.
+
+(* each group's log: duplicate-free, made of that group's members; in group order for do/map *)
+Lemma groups_of_keys m l : map fst (groups_of m l) = group_keys m l.
+Proof. unfold groups_of. rewrite map_map. simpl. apply map_id. Qed.
+
+Lemma groups_of_spec m l key g :
+  In (key, g) (groups_of m l) -> g = filter (fun a => gkey m a =? key) l.
+Proof.
+  unfold groups_of. rewrite in_map_iff. intros (k0 & H & _). inversion H; subst. reflexivity.
+Qed.
+
+Lemma nodup_flat_logs m (logs : list (Z * list Z)) :
+  NoDup (map fst logs) ->
+  (forall key l, In (key, l) logs -> NoDup l /\ forall a, In a l -> gkey m a = key) ->
+  NoDup (flat_map snd logs).
+Proof.
+  induction logs as [|[key l] t IH]; simpl; intros Hk Hl; [constructor|].
+  inversion Hk; subst. apply NoDup_app_intro.
+  - apply (Hl key l). left. reflexivity.
+  - apply IH; [assumption|]. intros k0 l0 H0. apply Hl. right. exact H0.
+  - intros x Hx Hin. apply in_flat_map in Hin. destruct Hin as ([k0 l0] & H0 & Hx0). simpl in Hx0.
+    assert (gkey m x = key) as E1 by (apply (Hl key l); [left; reflexivity|exact Hx]).
+    assert (gkey m x = k0) as E2 by (apply (Hl k0 l0); [right; exact H0|exact Hx0]).
+    apply H1. rewrite in_map_iff. exists (k0, l0). split; [simpl; congruence|exact H0].
+Qed.
+
+Lemma Forall2_In_l {A B} (R : A -> B -> Prop) la lb x :
+  Forall2 R la lb -> In x la -> exists y, In y lb /\ R x y.
+Proof.
+  induction 1; simpl; intros Hx; [tauto|]. destruct Hx as [Hx|Hx].
+  - subst. eexists. split; [left; reflexivity|assumption].
+  - destruct (IHForall2 Hx) as (y0 & Hy & Hr). exists y0. split; [right; exact Hy|exact Hr].
+Qed.
+
+Lemma Forall2_keys_eq (R : list Z -> list Z -> Prop) (logs gs : list (Z * list Z)) :
+  Forall2 (fun kl kg => R (snd kg) (snd kl)) logs gs -> map fst logs = map fst gs -> NoDup (map fst gs) ->
+  forall key l, In (key, l) logs -> exists g, In (key, g) gs /\ R g l.
+Proof.
+  induction 1 as [|[k1 l1] [k2 g2] logs gs HR HF IH]; simpl; intros Hk Hn key l Hin; [tauto|].
+  inversion Hk as [[Hk1 Hk2]]. inversion Hn as [|? ? Hn1 Hn2]; subst. destruct Hin as [Hin|Hin].
+  - inversion Hin; subst. exists g2. split; [left; reflexivity|exact HR].
+  - destruct (IH Hk2 Hn2 key l Hin) as (g & Hg & Hr). exists g. split; [right; exact Hg|exact Hr].
+Qed.
+
+
+(* each group's log: duplicate-free, made of that group's members; in group order for do/map *)
+Definition group_log_ok (k : akind) (g l : list Z) : Prop :=
+  NoDup l /\ (forall a, In a l -> In a g) /\ (k <> KShuffleDo -> subseq l g).
+
+(* the groups are visited in order; an exception stops the walk after the group it happened in *)
+Lemma visit_groups_spec ex k sc gs : forall perms s s' logs rz,
+  (forall key g, In (key, g) gs -> NoDup g) ->
+  visit_groups ex k sc gs perms s = Some (s', logs, rz) ->
+  exists gs1 gs2, gs = gs1 ++ gs2 /\ map fst logs = map fst gs1 /\
+    Forall2 (fun kl kg => group_log_ok k (snd kg) (snd kl)) logs gs1 /\ (rz = false -> gs2 = []).
+Proof.
+  induction gs as [|[key g] gs IH]; intros perms s s' logs rz Hn; simpl.
+  - intros H. inversion H; subst. exists [], []. repeat split; constructor.
+  - destruct (activate ex k (hd [] perms) sc (filter (alive s) g) s) as [[[s1 log1] rz1]|] eqn:E; [|discriminate].
+    assert (group_log_ok k g log1) as Hok.
+    { assert (NoDup g) as Hg by (apply (Hn key g); left; reflexivity). repeat split.
+      - eapply activate_once; [|exact E]. apply NoDup_filter. exact Hg.
+      - intros a Ha. pose proof (activate_members_only _ _ _ _ _ _ _ _ _ E a Ha) as Hin.
+        apply filter_In in Hin. apply Hin.
+      - intros Hk'. pose proof (activate_order _ _ _ _ _ _ _ _ _ E) as Ho.
+        eapply subseq_trans; [|apply subseq_filter].
+        destruct k; [exact Ho|congruence|exact Ho]. }
+    destruct rz1.
+    + intros H. inversion H; subst. exists [(key, g)], gs. repeat split; try reflexivity.
+      * constructor; [exact Hok|constructor].
+      * discriminate.
+    + destruct (visit_groups ex k sc gs (tl perms) s1) as [[[s2 logs2] rz2]|] eqn:E2; [|discriminate].
+      intros H. inversion H; subst.
+      destruct (IH (tl perms) s1 s' logs2 rz) as (gs1 & gs2 & -> & Hk & Hf & Hz);
+        [intros k0 g0 H0; apply (Hn k0 g0); right; exact H0|exact E2|].
+      exists ((key, g) :: gs1), gs2. repeat split.
+      * simpl. f_equal. exact Hk.
+      * constructor; assumption.
+      * exact Hz.
+Qed.
+
+Lemma NoDup_app_left (l1 l2 : list Z) : NoDup (l1 ++ l2) -> NoDup l1.
+Proof.
+  induction l1 as [|x t IH]; simpl; intros H; [constructor|].
+  inversion H; subst. constructor; [|apply IH; assumption].
+  intros Hin. apply H2. apply in_or_app. left. exact Hin.
+Qed.
+
+Lemma reached_groupby_once ex ops k r m perms sc members s' logs rz :
+  lookup r (sets (reached ops)) = Some members ->
+  visit_groups ex k sc (groups_of m members) perms (reached ops) = Some (s', logs, rz) ->
+  (exists rest, group_keys m members = map fst logs ++ rest /\ (rz = false -> rest = [])) /\
+  NoDup (map fst logs) /\ NoDup (flat_map snd logs) /\
+  forall key l, In (key, l) logs ->
+    group_log_ok k (filter (fun a => gkey m a =? key) members) l.
+Proof.
+  intros H Hv. destruct (reached_set ops r members H) as [Hn _].
+  assert (forall key g, In (key, g) (groups_of m members) -> NoDup g) as Hg.
+  { intros key g Hin. rewrite (groups_of_spec m members key g Hin). apply NoDup_filter. exact Hn. }
+  destruct (visit_groups_spec ex k sc _ perms _ s' logs rz Hg Hv) as (gs1 & gs2 & Hsplit & Hk & Hf & Hz).
+  assert (NoDup (map fst (gs1 ++ gs2))) as Hnd.
+  { rewrite <- Hsplit, groups_of_keys. apply (dedup_first_NoDup Z.eqb Z.eqb_eq). }
+  rewrite map_app in Hnd.
+  assert (NoDup (map fst logs)) as Hnk by (rewrite Hk; eapply NoDup_app_left; exact Hnd).
+  assert (forall key l, In (key, l) logs -> group_log_ok k (filter (fun a => gkey m a =? key) members) l) as Hok.
+  { intros key l Hin.
+    destruct (Forall2_keys_eq (group_log_ok k) logs gs1 Hf Hk) with (key := key) (l := l) as (g & Hgin & Hr).
+    - rewrite <- Hk. exact Hnk.
+    - exact Hin.
+    - assert (In (key, g) (groups_of m members)) as Hin' by (rewrite Hsplit; apply in_or_app; left; exact Hgin).
+      rewrite <- (groups_of_spec m members key g Hin'). exact Hr. }
+  split; [|split; [exact Hnk|split; [|exact Hok]]].
+  - exists (map fst gs2). split.
+    + rewrite <- groups_of_keys, Hsplit, map_app, Hk. reflexivity.
+    + intros Hr. rewrite (Hz Hr). reflexivity.
+  - apply (nodup_flat_logs m); [exact Hnk|]. intros key l Hin. destruct (Hok key l Hin) as (H1 & H2 & _).
+    split; [exact H1|]. intros a Ha. specialize (H2 a Ha). apply filter_In in H2. apply Z.eqb_eq. apply H2.
 Qed.
